@@ -477,13 +477,13 @@ theorem keyOK_spec {tok k : Str} (h : keyOK tok k = true) :
   · intro c hc; rw [hc] at h7; simpa using h7
 
 theorem tokOK_spec {tok : Str} (h : tokOK tok = true) :
-    tok ≠ [] ∧ ∀ c ∈ tok, isPySpace c = false ∧ c.isDigit = false ∧ c ≠ ';' ∧ c ≠ '(' ∧ c ≠ ')' ∧ c ≠ '*' ∧ c ≠ '+' := by
+    tok ≠ [] ∧ ∀ c ∈ tok, isPySpace c = false ∧ c.isDigit = false ∧ c ≠ ';' ∧ c ≠ '(' ∧ c ≠ ')' ∧ c ≠ '*' ∧ c ≠ '+' ∧ c ≠ '.' := by
   simp only [tokOK, Bool.and_eq_true, bne_iff_ne, ne_eq, List.all_eq_true, Bool.not_eq_true',
     List.contains_eq_mem, decide_eq_false_iff_not] at h
   refine ⟨h.1, fun c hc => ?_⟩
   have := h.2 c hc
   simp only [List.mem_cons, List.not_mem_nil, or_false, not_or] at this
-  exact ⟨this.1.1, this.1.2, this.2.1, this.2.2.1, this.2.2.2.1, this.2.2.2.2.1, this.2.2.2.2.2⟩
+  exact ⟨this.1.1, this.1.2, this.2.1, this.2.2.1, this.2.2.2.1, this.2.2.2.2.1, this.2.2.2.2.2.1, this.2.2.2.2.2.2⟩
 
 theorem tok_space {tok : Str} (h : tokOK tok = true) : ' ' ∉ tok := by
   intro hc; have := ((tokOK_spec h).2 ' ' hc).1; simp [isPySpace_space] at this
@@ -492,18 +492,26 @@ theorem tok_tight {tok : Str} (h : tokOK tok = true) : Tight tok := by
   obtain ⟨hne, hall⟩ := tokOK_spec h
   exact ⟨hne, fun c hc => (hall c (List.mem_of_mem_head? hc)).1, fun c hc => (hall c (List.mem_of_getLast? hc)).1⟩
 
+/-- the text of a written coefficient: the digits of `n`, for a decimal followed by `.` and the fractional digits -/
+def numText (t : Term) : Str :=
+  match t.form with
+  | .dec fr => natStr t.n ++ '.' :: fr
+  | _ => natStr t.n
+
 /-- the space-free pieces of a term text -/
 def pieces (t : Term) : List Str :=
   match t.inactive, t.form with
   | false, .omit => [t.key]
-  | false, .plain => [natStr t.n, t.key]
-  | false, .star => [natStr t.n, ['*'], t.key]
+  | false, .plain => [numText t, t.key]
+  | false, .star => [numText t, ['*'], t.key]
+  | false, .dec _ => [numText t, t.key]
   | true, .omit => ['(' :: t.key ++ [')']]
-  | true, .plain => ['(' :: natStr t.n, t.key ++ [')']]
-  | true, .star => ['(' :: natStr t.n, ['*'], t.key ++ [')']]
+  | true, .plain => ['(' :: numText t, t.key ++ [')']]
+  | true, .star => ['(' :: numText t, ['*'], t.key ++ [')']]
+  | true, .dec _ => ['(' :: numText t, t.key ++ [')']]
 
 theorem text_eq_pieces (t : Term) : t.text = joinStrs [' '] (pieces t) := by
-  unfold Term.text Term.body pieces
+  unfold Term.text Term.body pieces numText
   cases hi : t.inactive <;> cases hf : t.form <;> simp [joinStrs]
 
 /-- a piece: non-empty, space-free, not the lone `+`, free of the token and of `;` -/
@@ -558,24 +566,62 @@ theorem good_close {tok p : Str} (htok : tokOK tok = true) (hp : GoodPiece tok p
 theorem Term.ok_spec {tok : Str} {t : Term} (h : t.ok tok = true) :
     keyOK tok t.key = true ∧ 1 ≤ t.n ∧ (t.form = .omit → t.n = 1) ∧
       (t.inactive = true → parenBal t.key 0 = true) ∧
-      (t.inactive = false → t.form = .omit → isInactiveTerm t.key = false) := by
-  simp only [Term.ok, Bool.and_eq_true, decide_eq_true_eq, Bool.or_eq_true, bne_iff_ne, ne_eq, beq_iff_eq] at h
-  obtain ⟨⟨⟨h1, h2⟩, h3⟩, h4⟩ := h
-  refine ⟨h1, h2, ?_, ?_, ?_⟩
-  · intro hf; rcases h3 with h3 | h3
-    · exact absurd hf h3
-    · exact h3
+      (t.inactive = false → t.form = .omit → isInactiveTerm t.key = false) ∧
+      (∀ fr, t.form = .dec fr → fr ≠ [] ∧ (∀ c ∈ fr, c.isDigit = true) ∧ (natStr t.n).length + fr.length ≤ 15) := by
+  simp only [Term.ok, Bool.and_eq_true] at h
+  obtain ⟨⟨h1, h2⟩, h4⟩ := h
+  simp only [Term.coefOK, Bool.and_eq_true, decide_eq_true_eq] at h2
+  obtain ⟨h2, h3⟩ := h2
+  refine ⟨h1, h2, ?_, ?_, ?_, ?_⟩
+  · intro hf; rw [hf] at h3; simpa using h3
   · intro hi; simpa [hi] using h4
   · intro hi hf
-    simp only [hi, Bool.false_eq_true, if_false, Bool.or_eq_true, bne_iff_ne, ne_eq, Bool.not_eq_true'] at h4
-    rcases h4 with h4 | h4
-    · exact absurd hf h4
-    · exact h4
+    simpa [hi, hf] using h4
+  · intro fr hf; rw [hf] at h3
+    simp only [Bool.and_eq_true, bne_iff_ne, ne_eq, List.all_eq_true, decide_eq_true_eq] at h3
+    exact ⟨h3.1.1, h3.1.2, h3.2⟩
+
+theorem numText_chars {tok : Str} {t : Term} (h : t.ok tok = true) :
+    ∀ c ∈ numText t, c.isDigit = true ∨ c = '.' := by
+  intro c hc
+  unfold numText at hc
+  split at hc
+  · rename_i fr hf
+    simp only [List.mem_append, List.mem_cons] at hc
+    rcases hc with hc | hc | hc
+    · exact Or.inl (natStr_digits hc)
+    · exact Or.inr hc
+    · exact Or.inl (((Term.ok_spec h).2.2.2.2.2 fr hf).2.1 c hc)
+  · exact Or.inl (natStr_digits hc)
+
+theorem numText_head {t : Term} : ∃ c r, numText t = c :: r ∧ c.isDigit = true := by
+  obtain ⟨c, r, hcr, hc⟩ := natStr_head_digit t.n
+  unfold numText; split
+  · exact ⟨c, r ++ '.' :: _, by rw [hcr]; rfl, hc⟩
+  · exact ⟨c, r, hcr, hc⟩
+
+theorem good_numText {tok : Str} {t : Term} (htok : tokOK tok = true) (h : t.ok tok = true) :
+    GoodPiece tok (numText t) := by
+  obtain ⟨c, r, hcr, hc⟩ := numText_head (t := t)
+  have hch := numText_chars h
+  have hne : ∀ x, x.isDigit = false → x ≠ '.' → x ∉ numText t := by
+    intro x hx hx' hm
+    rcases hch x hm with h1 | h1
+    · rw [h1] at hx; exact absurd hx (by simp)
+    · exact hx' h1
+  refine ⟨by rw [hcr]; simp, hne ' ' (by decide) (by decide), ?_, ?_, hne ';' (by decide) (by decide)⟩
+  · rw [hcr]; intro e; simp at e; rw [e.1] at hc; exact absurd hc (by decide)
+  · apply isInfixB_false_of_not_mem (tokOK_spec htok).1
+    intro x hx hxt
+    have ht := (tokOK_spec htok).2 x hxt
+    rcases hch x hx with h1 | h1
+    · rw [h1] at ht; exact absurd ht.2.1 (by simp)
+    · exact ht.2.2.2.2.2.2.2 h1
 
 theorem pieces_good {tok : Str} {t : Term} (htok : tokOK tok = true) (h : t.ok tok = true) :
     pieces t ≠ [] ∧ ∀ p ∈ pieces t, GoodPiece tok p := by
   have hk := good_key (Term.ok_spec h).1
-  have hd := good_natStr htok t.n
+  have hd := good_numText htok h
   have hs := good_star htok
   unfold pieces
   cases t.inactive <;> cases t.form <;> simp only [ne_eq, List.cons_ne_nil, not_false_eq_true, true_and,
@@ -583,9 +629,11 @@ theorem pieces_good {tok : Str} {t : Term} (htok : tokOK tok = true) (h : t.ok t
   · exact hk
   · exact ⟨hd, hk⟩
   · exact ⟨hd, hs, hk⟩
+  · exact ⟨hd, hk⟩
   · have := good_open htok (good_close htok hk); simpa using this
   · exact ⟨good_open htok hd, good_close htok hk⟩
   · exact ⟨good_open htok hd, hs, good_close htok hk⟩
+  · exact ⟨good_open htok hd, good_close htok hk⟩
 
 /-! #### pieces joined by single spaces never produce a spurious `" + "`, token or `;` -/
 
@@ -673,49 +721,94 @@ theorem tight_wrap (x : Str) : Tight ('(' :: x ++ [')']) := by
     rw [show '(' :: x ++ [')'] = ('(' :: x) ++ [')'] from rfl, List.getLast?_concat] at hc
     simp at hc; subst hc; decide
 
+/-- what precedes the key in a term body -/
+def bodyPre (t : Term) : Str :=
+  match t.form with
+  | .omit => []
+  | .plain => natStr t.n ++ [' ']
+  | .star => natStr t.n ++ [' ', '*', ' ']
+  | .dec fr => natStr t.n ++ '.' :: fr ++ [' ']
+
+theorem body_eq (t : Term) : t.body = bodyPre t ++ t.key := by
+  unfold Term.body bodyPre; cases t.form <;> simp
+
+theorem bodyPre_chars {tok : Str} {t : Term} (h : t.ok tok = true) :
+    ∀ c ∈ bodyPre t, c.isDigit = true ∨ c = ' ' ∨ c = '*' ∨ c = '.' := by
+  intro c hc
+  unfold bodyPre at hc
+  split at hc
+  · simp at hc
+  · simp only [List.mem_append, List.mem_singleton] at hc
+    rcases hc with hc | hc
+    · exact Or.inl (natStr_digits hc)
+    · exact Or.inr (Or.inl hc)
+  · simp only [List.mem_append, List.mem_cons, List.not_mem_nil, or_false] at hc
+    rcases hc with hc | hc | hc | hc
+    · exact Or.inl (natStr_digits hc)
+    · exact Or.inr (Or.inl hc)
+    · exact Or.inr (Or.inr (Or.inl hc))
+    · exact Or.inr (Or.inl hc)
+  · rename_i fr hf
+    simp only [List.mem_append, List.mem_cons, List.not_mem_nil, or_false] at hc
+    rcases hc with (hc | hc | hc) | hc
+    · exact Or.inl (natStr_digits hc)
+    · exact Or.inr (Or.inr (Or.inr hc))
+    · exact Or.inl (((Term.ok_spec h).2.2.2.2.2 fr hf).2.1 c hc)
+    · exact Or.inr (Or.inl hc)
+
+theorem bodyPre_head {t : Term} (hne : t.form ≠ .omit) : ∃ c r, bodyPre t = c :: r ∧ c.isDigit = true := by
+  obtain ⟨c, r, hcr, hc⟩ := natStr_head_digit t.n
+  unfold bodyPre
+  cases hf : t.form
+  · exact absurd hf hne
+  · exact ⟨c, r ++ [' '], by simp [hcr], hc⟩
+  · exact ⟨c, r ++ [' ', '*', ' '], by simp [hcr], hc⟩
+  · rename_i fr; exact ⟨c, r ++ '.' :: fr ++ [' '], by simp only [hcr, List.cons_append], hc⟩
+
+theorem getLast?_append_ne {a b : Str} (hb : b ≠ []) : (a ++ b).getLast? = b.getLast? := by
+  rw [List.getLast?_append]
+  cases h : b.getLast? with
+  | none => exact absurd (List.getLast?_eq_none_iff.mp h) hb
+  | some x => rfl
+
 theorem text_tight {tok : Str} {t : Term} (h : t.ok tok = true) : Tight t.text := by
   obtain ⟨hk, _⟩ := Term.ok_spec h
   obtain ⟨hne, _, _, _, _, _, hh, hl⟩ := keyOK_spec hk
-  have hd := natStr_tight t.n
   unfold Term.text
   cases t.inactive
   · simp only [Bool.false_eq_true, if_false]
-    unfold Term.body
-    cases t.form <;> simp only
-    · exact ⟨hne, hh, hl⟩
-    · exact tight_append hd.1 (b := ' ' :: t.key) (by simp) hd.2.1
-        (by intro c hc; rw [List.getLast?_cons_of_ne_nil hne] at hc; exact hl c hc)
-    · exact tight_append hd.1 (b := ' ' :: '*' :: ' ' :: t.key) (by simp) hd.2.1
-        (by intro c hc
-            rw [List.getLast?_cons_cons, List.getLast?_cons_cons, List.getLast?_cons_of_ne_nil hne] at hc
-            exact hl c hc)
+    rw [body_eq]
+    by_cases hf : t.form = .omit
+    · simp only [bodyPre, hf, List.nil_append]; exact ⟨hne, hh, hl⟩
+    · obtain ⟨c, r, hcr, hc⟩ := bodyPre_head hf
+      refine ⟨by simp [hne], ?_, ?_⟩
+      · intro x hx; rw [hcr] at hx; simp at hx; subst hx; exact digit_not_space hc
+      · intro x hx; rw [getLast?_append_ne hne] at hx; exact hl x hx
   · simp only [if_true]; exact tight_wrap _
 
 /-! #### classification and `_parse_multiplicity` of one term -/
 
-theorem body_parenBal {t : Term} (hk : parenBal t.key 0 = true) : parenBal t.body 0 = true := by
-  have hdig : ∀ c ∈ natStr t.n, c ≠ '(' ∧ c ≠ ')' := fun c hc =>
-    ⟨digit_ne (natStr_digits hc) (by decide), digit_ne (natStr_digits hc) (by decide)⟩
-  unfold Term.body
-  cases t.form <;> simp only
+theorem body_parenBal {tok : Str} {t : Term} (h : t.ok tok = true) (hk : parenBal t.key 0 = true) :
+    parenBal t.body 0 = true := by
+  rw [body_eq, parenBal_append_noparen]
   · exact hk
-  · rw [parenBal_append_noparen hdig]; simpa [parenBal] using hk
-  · rw [parenBal_append_noparen hdig]; simpa [parenBal] using hk
+  · intro c hc
+    rcases bodyPre_chars h c hc with h1 | h1 | h1 | h1
+    · exact ⟨digit_ne h1 (by decide), digit_ne h1 (by decide)⟩
+    all_goals (subst h1; exact ⟨by decide, by decide⟩)
 
 theorem text_classified {tok : Str} {t : Term} (h : t.ok tok = true) : isInactiveTerm t.text = t.inactive := by
-  obtain ⟨_, _, _, hbal, hact⟩ := Term.ok_spec h
+  obtain ⟨_, _, _, hbal, hact, _⟩ := Term.ok_spec h
   unfold Term.text
   cases hi : t.inactive
   · simp only [Bool.false_eq_true, if_false]
-    unfold Term.body
-    cases hf : t.form <;> simp only
-    · exact hact hi hf
-    · obtain ⟨c, r, hcr, hc⟩ := natStr_head_digit t.n
-      rw [hcr]; exact isInactive_of_head (digit_ne hc (by decide))
-    · obtain ⟨c, r, hcr, hc⟩ := natStr_head_digit t.n
-      rw [hcr]; exact isInactive_of_head (digit_ne hc (by decide))
+    by_cases hf : t.form = .omit
+    · have : t.body = t.key := by rw [body_eq]; simp [bodyPre, hf]
+      rw [this]; exact hact hi hf
+    · obtain ⟨c, r, hcr, hc⟩ := bodyPre_head hf
+      rw [body_eq, hcr]; exact isInactive_of_head (digit_ne hc (by decide))
   · simp only [if_true]
-    exact isInactive_wrapped (body_parenBal (hbal hi))
+    exact isInactive_wrapped (body_parenBal h (hbal hi))
 
 theorem natStr_nofloat (n : Nat) : (natStr n).any (fun c => Printing.floatMarkers.contains c) = false := by
   rw [List.any_eq_false]; intro c hc
@@ -725,10 +818,203 @@ theorem natStr_nofloat (n : Nat) : (natStr n).any (fun c => Printing.floatMarker
 
 theorem natStr_nospace (n : Nat) : ' ' ∉ natStr n := fun h => digit_ne (natStr_digits h) (by decide) rfl
 
+/-! #### `float("n.ddd")` -/
+
+theorem takeWhile_all {p : Char → Bool} {s : Str} (h : ∀ c ∈ s, p c = true) :
+    s.takeWhile p = s ∧ s.dropWhile p = [] := by
+  induction s with
+  | nil => simp
+  | cons c s ih =>
+    have := ih (fun x hx => h x (by simp [hx]))
+    simp [List.takeWhile, List.dropWhile, h c (by simp), this.1, this.2]
+
+theorem takeWhile_pre {p : Char → Bool} {a b : Str} {x : Char} (ha : ∀ c ∈ a, p c = true) (hx : p x = false) :
+    (a ++ x :: b).takeWhile p = a := by
+  induction a with
+  | nil => simp [List.takeWhile, hx]
+  | cons c a ih => simp [List.takeWhile, ha c (by simp), ih (fun y hy => ha y (by simp [hy]))]
+
+theorem digitsVal_bound {s : Str} (h : ∀ c ∈ s, c.isDigit = true) (acc : Nat) :
+    ∃ v, digitsVal s acc = some v ∧ acc * 10 ^ s.length ≤ v ∧ v < (acc + 1) * 10 ^ s.length := by
+  induction s generalizing acc with
+  | nil => exact ⟨acc, rfl, by simp, by simp⟩
+  | cons c s ih =>
+    have hc := h c (by simp)
+    have hr := digit_range hc
+    obtain ⟨v, hv, h1, h2⟩ := ih (fun x hx => h x (by simp [hx])) (acc * 10 + (c.toNat - 48))
+    refine ⟨v, by simp [digitsVal, hc, hv], ?_, ?_⟩
+    · have e : acc * 10 ^ (c :: s).length = (acc * 10) * 10 ^ s.length := by
+        rw [List.length_cons, Nat.pow_succ, Nat.mul_comm (10 ^ s.length) 10, Nat.mul_assoc]
+      rw [e]
+      exact Nat.le_trans (Nat.mul_le_mul_right _ (Nat.le_add_right _ _)) h1
+    · have e : (acc + 1) * 10 ^ (c :: s).length = (acc * 10 + 10) * 10 ^ s.length := by
+        rw [List.length_cons, Nat.pow_succ, Nat.mul_comm (10 ^ s.length) 10, ← Nat.mul_assoc, Nat.add_mul, Nat.one_mul]
+      rw [e]
+      exact Nat.lt_of_lt_of_le h2 (Nat.mul_le_mul_right _ (by omega))
+
+theorem digitPart_of_digits {s : Str} (hne : s ≠ []) (h : ∀ c ∈ s, c.isDigit = true) :
+    digitPart s = digitsVal s 0 := by
+  have hus : ∀ d ∈ s, d ≠ '_' := fun d hd => digit_ne (h d hd) (by decide)
+  have hfilter : s.filter (· != '_') = s := by
+    rw [List.filter_eq_self]; intro d hd; simpa using hus d hd
+  cases hs : s with
+  | nil => exact absurd hs hne
+  | cons c r =>
+    have hok : underscoresOK (c :: r) = true := by
+      simp only [underscoresOK, Bool.and_eq_true, bne_iff_ne, ne_eq, Bool.not_eq_true']
+      refine ⟨⟨hus c (by rw [hs]; simp), ?_⟩, ?_⟩
+      · intro hl
+        have := List.mem_of_getLast? (by simpa using hl : (c :: r).getLast? = some '_')
+        exact hus '_' (by rw [hs]; exact this) rfl
+      · apply isInfixB_false_of_not_mem (by simp)
+        intro d hd; rw [← hs] at hd; have := hus d hd; simp [this]
+    unfold digitPart
+    rw [hok, ← hs, hfilter]; simp only [if_true]
+
+theorem filter_us_digits {s : Str} (h : ∀ c ∈ s, c.isDigit = true) : s.filter (· != '_') = s := by
+  rw [List.filter_eq_self]; intro d hd
+  have : d ≠ '_' := digit_ne (h d hd) (by decide)
+  simpa using this
+
+theorem toLower_digit {c : Char} (h : c.isDigit = true) : c.toLower = c := by
+  have := digit_range h
+  unfold Char.toLower
+  rw [dif_neg]
+  intro hh
+  have h1 : 'A'.val.toNat ≤ c.val.toNat := UInt32.le_iff_toNat_le.mp hh.1
+  have : (65 : Nat) ≤ c.toNat := h1
+  omega
+
+theorem outOfRange_dec {m k : Nat} (hk : 1 ≤ k) (hk' : k ≤ 15) (hm1 : 1 ≤ m) (hm2 : m < 10 ^ 15) :
+    outOfRange m ((0 : Int) - (k : Int)) = false := by
+  unfold outOfRange
+  have hE1 : (decide ((0 : Int) - (k : Int) > 400) || decide ((0 : Int) - (k : Int) < -400)) = false := by
+    simp only [Bool.or_eq_false_iff, decide_eq_false_iff_not]; constructor <;> omega
+  have hE2 : ¬ ((0 : Int) - (k : Int) ≥ 0) := by omega
+  have hk2 : (-((0 : Int) - (k : Int))).toNat = k := by omega
+  rw [if_neg (by rw [hE1]; simp), if_neg hE2, hk2]
+  have h1 : ¬ (m ≥ 10 ^ (300 + k)) := by
+    have : 10 ^ 15 ≤ 10 ^ (300 + k) := Nat.pow_le_pow_right (by decide) (by omega)
+    omega
+  have h2 : ¬ (m * 10 ^ 300 < 10 ^ k) := by
+    have a : 10 ^ k ≤ 10 ^ 300 := Nat.pow_le_pow_right (by decide) (by omega)
+    have b : 10 ^ 300 ≤ m * 10 ^ 300 := Nat.le_mul_of_pos_left _ hm1
+    omega
+  simp [h1, h2]
+
+/-- `float("<n>.<frac>")` is exactly the value of the decimal text -/
+theorem pyFloat_dec {n : Nat} {fr : Str} (hn : 1 ≤ n) (hne : fr ≠ []) (hd : ∀ c ∈ fr, c.isDigit = true)
+    (hlen : (natStr n).length + fr.length ≤ 15) : pyFloat (natStr n ++ '.' :: fr) = .ok (decValue n fr) := by
+  obtain ⟨c0, r0, hcr, hc0⟩ := natStr_head_digit n
+  have hchars : ∀ c ∈ natStr n ++ '.' :: fr, c.isDigit = true ∨ c = '.' := by
+    intro c hc; simp only [List.mem_append, List.mem_cons] at hc
+    rcases hc with hc | hc | hc
+    · exact Or.inl (natStr_digits hc)
+    · exact Or.inr hc
+    · exact Or.inl (hd c hc)
+  have htight : Tight (natStr n ++ '.' :: fr) := by
+    refine tight_append (natStr_ne_nil n) (by simp) (natStr_tight n).2.1 ?_
+    intro c hc
+    rw [List.getLast?_cons_of_ne_nil hne] at hc
+    exact digit_not_space (hd c (List.mem_of_getLast? hc))
+  have hany : (natStr n ++ '.' :: fr).any (fun c => decide (c.toNat ≥ 128)) = false := by
+    rw [List.any_eq_false]; intro c hc
+    rcases hchars c hc with h1 | h1
+    · have := digit_range h1; simp; omega
+    · subst h1; decide
+  have hsign : splitSign (natStr n ++ '.' :: fr) = (false, natStr n ++ '.' :: fr) := by
+    rw [hcr]
+    have h1 : c0 ≠ '-' := digit_ne hc0 (by decide)
+    have h2 : c0 ≠ '+' := digit_ne hc0 (by decide)
+    simp only [List.cons_append]
+    unfold splitSign; split
+    · rename_i heq; simp at heq; exact absurd heq.1 h1
+    · rename_i heq; simp at heq; exact absurd heq.1 h2
+    · rfl
+  have hlow : ∀ w : Str, (∀ x r, w = x :: r → x.isDigit = false) → w ≠ [] →
+      ((natStr n ++ '.' :: fr).map Char.toLower == w) = false := by
+    intro w hw hwne
+    rw [beq_eq_false_iff_ne]
+    intro e
+    cases w with
+    | nil => exact hwne rfl
+    | cons x r =>
+      rw [hcr] at e
+      simp only [List.cons_append, List.map_cons, List.cons.injEq] at e
+      have := hw x r rfl
+      rw [← e.1, toLower_digit hc0, hc0] at this
+      exact absurd this (by simp)
+  have hinf : ((natStr n ++ '.' :: fr).map Char.toLower == "inf".toList) = false :=
+    hlow _ (by intro x r e; have : "inf".toList = ['i', 'n', 'f'] := by decide
+               rw [this] at e; simp at e; have e1 := e.1; subst e1; decide) (by decide)
+  have hinfty : ((natStr n ++ '.' :: fr).map Char.toLower == "infinity".toList) = false :=
+    hlow _ (by intro x r e; have : "infinity".toList = ['i', 'n', 'f', 'i', 'n', 'i', 't', 'y'] := by decide
+               rw [this] at e; simp at e; have e1 := e.1; subst e1; decide) (by decide)
+  have hnan : ((natStr n ++ '.' :: fr).map Char.toLower == "nan".toList) = false :=
+    hlow _ (by intro x r e; have : "nan".toList = ['n', 'a', 'n'] := by decide
+               rw [this] at e; simp at e; have e1 := e.1; subst e1; decide) (by decide)
+  have hnoe : ∀ c ∈ natStr n ++ '.' :: fr, (c != 'e' && c != 'E') = true := by
+    intro c hc
+    rcases hchars c hc with h1 | h1
+    · have a : c ≠ 'e' := digit_ne h1 (by decide)
+      have b : c ≠ 'E' := digit_ne h1 (by decide)
+      simp [a, b]
+    · subst h1; decide
+  have hmant := takeWhile_all hnoe
+  have hip : (natStr n ++ '.' :: fr).takeWhile (· != '.') = natStr n :=
+    takeWhile_pre (fun c hc => by
+      have : c ≠ '.' := digit_ne (natStr_digits hc) (by decide)
+      simpa using this) (by decide)
+  have hfp : ((natStr n ++ '.' :: fr).dropWhile (· != '.')).drop 1 = fr := by
+    rw [dropWhile_pre (p := (· != '.')) (pre := natStr n) (t := '.' :: fr)]
+    · rfl
+    · intro c hc
+      have : c ≠ '.' := digit_ne (natStr_digits hc) (by decide)
+      simpa using this
+    · intro c hc; simp at hc; subst hc; decide
+  obtain ⟨F, hF, _, hFlt⟩ := digitsVal_bound hd 0
+  have hoi : optDigits (natStr n) = some n := by
+    unfold optDigits
+    have : (natStr n).isEmpty = false := by rw [hcr]; rfl
+    rw [this]; simp only [Bool.false_eq_true, if_false]
+    rw [digitPart_of_digits (natStr_ne_nil n) (fun c hc => natStr_digits hc), digitsVal_natStr]
+  have hof : optDigits fr = some F := by
+    unfold optDigits
+    have : fr.isEmpty = false := by cases fr with | nil => exact absurd rfl hne | cons _ _ => rfl
+    rw [this]; simp only [Bool.false_eq_true, if_false]
+    rw [digitPart_of_digits hne hd, hF]
+  have hipe : (natStr n).isEmpty = false := by rw [hcr]; rfl
+  have hff := filter_us_digits hd
+  have hfn := filter_us_digits (s := natStr n) (fun c hc => natStr_digits hc)
+  have hk1 : 1 ≤ fr.length := List.length_pos_iff.mpr hne
+  have hL : n < 10 ^ (natStr n).length :=
+    (Nat.length_toDigits_le_iff (by decide) (List.length_pos_iff.mpr (natStr_ne_nil n))).mp (Nat.le_refl _)
+  have hm1 : 1 ≤ n * 10 ^ fr.length + F := by
+    have : 1 ≤ 10 ^ fr.length := Nat.pow_pos (by decide)
+    have : 1 ≤ n * 10 ^ fr.length := Nat.mul_le_mul hn this
+    omega
+  have hm2 : n * 10 ^ fr.length + F < 10 ^ 15 := by
+    have a : n * 10 ^ fr.length + F < (n + 1) * 10 ^ fr.length := by
+      rw [Nat.add_mul]; simp only [Nat.zero_add, Nat.one_mul] at hFlt ⊢; omega
+    have b : (n + 1) * 10 ^ fr.length ≤ 10 ^ (natStr n).length * 10 ^ fr.length := Nat.mul_le_mul_right _ hL
+    have c : 10 ^ (natStr n).length * 10 ^ fr.length ≤ 10 ^ 15 := by
+      rw [← Nat.pow_add]; exact Nat.pow_le_pow_right (by decide) hlen
+    omega
+  have hm0 : (n * 10 ^ fr.length + F == 0) = false := by
+    rw [beq_eq_false_iff_ne]; omega
+  have hnd : ¬ ((natStr n).length + fr.length > 15) := by omega
+  have hoor := outOfRange_dec hk1 (by omega) hm1 hm2
+  have hE2 : ¬ ((0 : Int) - (fr.length : Int) ≥ 0) := by omega
+  have hk2 : (-((0 : Int) - (fr.length : Int))).toNat = fr.length := by omega
+  unfold pyFloat
+  simp only [strip_tight htight, hany, hsign, hinf, hinfty, hnan, hmant.1, hmant.2, hip, hfp, hoi, hof, hipe,
+    hff, hfn, hm0, hnd, hoor, Bool.false_eq_true, if_false, Bool.or_self, Bool.false_and, scale10, hE2, hk2,
+    decValue, hF, Option.getD_some]
+
 /-- the loop body of `_parse_multiplicity` on the text of an admissible term: the key gets the written coefficient -/
 theorem parseItem_body {tok : Str} {t : Term} (d : Dict) (h : t.ok tok = true) :
-    parseItem d t.body = .ok (dictAdd d t.key (Coef.ofNat t.n)) := by
-  obtain ⟨hk, _, homit, _, _⟩ := Term.ok_spec h
+    parseItem d t.body = .ok (dictAdd d t.key t.coef) := by
+  obtain ⟨hk, hn1, homit, _, _, hdec⟩ := Term.ok_spec h
   obtain ⟨hne, hsp, _⟩ := keyOK_spec hk
   have hd := natStr_nospace t.n
   have hdne := natStr_ne_nil t.n
@@ -736,16 +1022,33 @@ theorem parseItem_body {tok : Str} {t : Term} (d : Dict) (h : t.ok tok = true) :
   unfold parseItem Term.body
   cases hf : t.form <;> simp only
   · rw [reSplit_spacefree hsp]
-    simp [hne, homit hf]
+    simp [hne, homit hf, Term.coef, Term.value, Term.isDec, hf, Coef.ofNat]
   · rw [reSplit_plain hd hsp, hfil]
     simp only [natStr_nofloat, Bool.false_eq_true, if_false, pyInt_natStr]
-    rfl
+    simp [Term.coef, Term.value, Term.isDec, hf, Coef.ofInt, Rat.intCast_natCast]
   · rw [reSplit_star hd hsp, hfil]
     simp only [natStr_nofloat, Bool.false_eq_true, if_false, pyInt_natStr]
-    rfl
+    simp [Term.coef, Term.value, Term.isDec, hf, Coef.ofInt, Rat.intCast_natCast]
+  · rename_i fr
+    obtain ⟨hfne, hfd, hlen⟩ := hdec fr hf
+    have hnum : ' ' ∉ natStr t.n ++ '.' :: fr := by
+      intro hm; simp only [List.mem_append, List.mem_cons] at hm
+      rcases hm with hm | hm | hm
+      · exact hd hm
+      · exact absurd hm (by decide)
+      · exact digit_ne (hfd _ hm) (by decide) rfl
+    have e : natStr t.n ++ '.' :: fr ++ ' ' :: t.key = (natStr t.n ++ '.' :: fr) ++ ' ' :: t.key := by simp
+    rw [e, reSplit_plain hnum hsp]
+    have hfil2 : List.filter (fun x => x != []) [natStr t.n ++ '.' :: fr, t.key] = [natStr t.n ++ '.' :: fr, t.key] := by
+      simp [hne]
+    rw [hfil2]
+    have hany : (natStr t.n ++ '.' :: fr).any (fun c => Printing.floatMarkers.contains c) = true := by
+      simp [floatMarkers_is]
+    simp only [hany, if_true, pyFloat_dec hn1 hfne hfd hlen]
+    simp [Term.coef, Term.value, Term.isDec, hf]
 
 /-- what `_parse_multiplicity` accumulates for a list of written terms -/
-def accum (d : Dict) (ts : List Term) : Dict := ts.foldl (fun d t => dictAdd d t.key (Coef.ofNat t.n)) d
+def accum (d : Dict) (ts : List Term) : Dict := ts.foldl (fun d t => dictAdd d t.key t.coef) d
 
 theorem parseItems_bodies {tok : Str} (d : Dict) (ts : List Term) (h : ∀ t ∈ ts, t.ok tok = true) :
     parseItems d (ts.map Term.body) = .ok (accum d ts) := by
@@ -858,7 +1161,7 @@ theorem sideText_noTok {tok : Str} (htok : tokOK tok = true) (ts : List Term) (h
       rw [sideText_cons2]
       have h1 := text_noTok htok (h t (by simp))
       have h2 := ih (fun x hx => h x (by simp [hx]))
-      have hplus : '+' ∉ tok := fun hc => ((tokOK_spec htok).2 _ hc).2.2.2.2.2.2 rfl
+      have hplus : '+' ∉ tok := fun hc => ((tokOK_spec htok).2 _ hc).2.2.2.2.2.2.1 rfl
       have h3 : isInfixB tok (['+'] ++ ' ' :: sideText (u :: ts)) = false :=
         isInfixB_append_cons (tok_space htok) (isInfixB_false_of_not_mem hne (by simpa using hplus)) h2
       have := isInfixB_append_cons (tok_space htok) h1 h3
@@ -1032,20 +1335,53 @@ def allAllowed (allowed : Allowed) (reac prod : List Term) : Bool :=
   (actD reac).all (fun kv => allowed.has kv.1) && (inaD reac).all (fun kv => allowed.has kv.1)
     && (actD prod).all (fun kv => allowed.has kv.1) && (inaD prod).all (fun kv => allowed.has kv.1)
 
+theorem mem_tailText {c : Char} {tl : List Str} (h : c ∈ tailText tl) : c = ';' ∨ ∃ p ∈ tl, c ∈ p := by
+  induction tl with
+  | nil => simp [tailText] at h
+  | cons p ps ih =>
+    simp only [tailText, List.mem_cons, List.mem_append] at h
+    rcases h with (h | h) | h
+    · exact Or.inl h
+    · exact Or.inr ⟨p, by simp, h⟩
+    · rcases ih h with h1 | ⟨q, hq, hc⟩
+      · exact Or.inl h1
+      · exact Or.inr ⟨q, by simp [hq], hc⟩
+
+/-- `line.split(";")` on a stoichiometry followed by `;`-free parts returns them -/
+theorem split_tail (L : Str) (tl : List Str) (hL : ';' ∉ L) (htl : ∀ p ∈ tl, ';' ∉ p) :
+    pySplit [';'] (L ++ tailText tl) = L :: tl := by
+  have none : ∀ x : Str, ';' ∉ x → isInfixB [';'] x = false := fun x hx =>
+    isInfixB_false_of_not_mem (by simp) (fun c hc => by simp only [List.mem_singleton]; intro e; subst e; exact hx hc)
+  induction tl generalizing L with
+  | nil => simpa [tailText] using pySplit_none (none L hL)
+  | cons p ps ih =>
+    have e : L ++ tailText (p :: ps) = L ++ [';'] ++ (p ++ tailText ps) := by simp [tailText]
+    rw [e, pySplit_first _ (by simp) (by simpa using none L hL), ih p (htl p (by simp)) (fun q hq => htl q (by simp [hq]))]
+
+/-- **`to_reaction` up to the constructor, on a written line with any `;` tail**: the stoichiometry is read as written
+    whatever follows; the parameter text is exactly the first tail part stripped, the keyword parts are the others. -/
 theorem toRaw_written {tok : Str} (allowed : Allowed) (htok : tokOK tok = true) {reac prod : List Term}
-    (hr : ∀ t ∈ reac, t.ok tok = true) (hp : ∀ t ∈ prod, t.ok tok = true) :
-    toRaw allowed tok (writeLine tok reac prod) =
-      if allAllowed allowed reac prod then .ok ⟨actD reac, actD prod, inaD reac, inaD prod, none, []⟩
+    (hr : ∀ t ∈ reac, t.ok tok = true) (hp : ∀ t ∈ prod, t.ok tok = true) (tl : List Str)
+    (htl : ∀ p ∈ tl, ';' ∉ p ∧ '\n' ∉ p) :
+    toRaw allowed tok (writeLine tok reac prod ++ tailText tl) =
+      if allAllowed allowed reac prod then
+        .ok ⟨actD reac, actD prod, inaD reac, inaD prod, tl.head?.map strip, tl.drop 1⟩
       else .error .unknownKey := by
-  have hA : rstripChars Printing.lineEnd (writeLine tok reac prod) = writeLine tok reac prod := by
+  have hA : rstripChars Printing.lineEnd (writeLine tok reac prod ++ tailText tl)
+      = writeLine tok reac prod ++ tailText tl := by
     apply rstripChars_id
-    intro c hc; have := line_last htok hr hp c hc
-    simp [lineEnd_is, this]
-  have hB : pySplit Printing.partSep (writeLine tok reac prod) = [writeLine tok reac prod] := by
-    apply pySplit_none
-    rw [partSep_is]
-    apply isInfixB_false_of_not_mem (by simp)
-    intro c hc; simp only [List.mem_singleton]; intro e; subst e; exact line_noSemi htok hr hp hc
+    intro c hc
+    have hcn : c ≠ '\n' := by
+      cases htt : tailText tl with
+      | nil => rw [htt, List.append_nil] at hc; exact line_last htok hr hp c hc
+      | cons x xs =>
+        rw [getLast?_append_ne (by rw [htt]; simp)] at hc
+        rcases mem_tailText (List.mem_of_getLast? hc) with h1 | ⟨q, hq, hcq⟩
+        · rw [h1]; decide
+        · intro e; subst e; exact (htl q hq).2 hcq
+    simp [lineEnd_is, hcn]
+  have hB : pySplit Printing.partSep (writeLine tok reac prod ++ tailText tl) = writeLine tok reac prod :: tl := by
+    rw [partSep_is]; exact split_tail _ _ (line_noSemi htok hr hp) (fun p hp' => (htl p hp').1)
   have hC : strip (writeLine tok reac prod) = Rp reac ++ tok ++ Pp prod := by
     rw [line_decomp]
     apply strip_pad (core_tight htok hr hp)
@@ -1058,19 +1394,27 @@ theorem toRaw_written {tok : Str} (allowed : Allowed) (htok : tokOK tok = true) 
     | nil => exact absurd rfl (tokOK_spec htok).1
     | cons _ _ => rfl
   unfold toRaw
-  simp only [hA, hB, List.headD_cons, hC, hD, hne, core_split htok hr hp, List.map_cons, List.map_nil,
-    termSep_is, elems_Rp htok hr, elems_Pp htok hp, Bool.not_true, Bool.false_eq_true, if_false,
-    parseSides, parseMult_active allowed hr, parseMult_inactive allowed hr, parseMult_active allowed hp,
-    parseMult_inactive allowed hp, allAllowed, List.drop]
-  by_cases h1 : (actD reac).all (fun kv => allowed.has kv.1) = true <;>
-  by_cases h2 : (inaD reac).all (fun kv => allowed.has kv.1) = true <;>
-  by_cases h3 : (actD prod).all (fun kv => allowed.has kv.1) = true <;>
-  by_cases h4 : (inaD prod).all (fun kv => allowed.has kv.1) = true <;> simp [h1, h2, h3, h4]
+  cases tl with
+  | nil =>
+    simp only [hA, hB, List.headD_cons, hC, hD, hne, core_split htok hr hp, List.map_cons, List.map_nil,
+      termSep_is, elems_Rp htok hr, elems_Pp htok hp, Bool.not_true, Bool.false_eq_true, if_false,
+      parseSides, parseMult_active allowed hr, parseMult_inactive allowed hr, parseMult_active allowed hp,
+      parseMult_inactive allowed hp, allAllowed, List.drop, List.head?_nil, Option.map_none]
+    by_cases h1 : (actD reac).all (fun kv => allowed.has kv.1) = true <;>
+    by_cases h2 : (inaD reac).all (fun kv => allowed.has kv.1) = true <;>
+    by_cases h3 : (actD prod).all (fun kv => allowed.has kv.1) = true <;>
+    by_cases h4 : (inaD prod).all (fun kv => allowed.has kv.1) = true <;> simp [h1, h2, h3, h4]
+  | cons p ps =>
+    simp only [hA, hB, List.headD_cons, hC, hD, hne, core_split htok hr hp, List.map_cons, List.map_nil,
+      termSep_is, elems_Rp htok hr, elems_Pp htok hp, Bool.not_true, Bool.false_eq_true, if_false,
+      parseSides, parseMult_active allowed hr, parseMult_inactive allowed hr, parseMult_active allowed hp,
+      parseMult_inactive allowed hp, allAllowed, List.drop, List.head?_cons, Option.map_some]
+    by_cases h1 : (actD reac).all (fun kv => allowed.has kv.1) = true <;>
+    by_cases h2 : (inaD reac).all (fun kv => allowed.has kv.1) = true <;>
+    by_cases h3 : (actD prod).all (fun kv => allowed.has kv.1) = true <;>
+    by_cases h4 : (inaD prod).all (fun kv => allowed.has kv.1) = true <;> simp [h1, h2, h3, h4]
 
 /-! ### dictionaries -/
-
-/-- the entry a key with total written coefficient `n` must have: absent when 0, the int `n` otherwise -/
-def coefOf (n : Nat) : Option Coef := if n = 0 then none else some (Coef.ofNat n)
 
 def keysOf (d : Dict) : List Str := d.map (·.1)
 
@@ -1094,52 +1438,80 @@ theorem dictGet_dictAdd (d : Dict) (k : Str) (c : Coef) (k' : Str) :
         · subst h2; simp [dictGet, h0]; intro e; exact absurd e h1
         · simp [dictGet, h0, h1, h2, ih]
 
-theorem coefOf_getD (m : Nat) : (coefOf m).getD (Coef.ofNat 0) = Coef.ofNat m := by
-  unfold coefOf; split
-  · rename_i h; subst h; rfl
-  · rfl
-
-theorem dictGet_step {d : Dict} {f : Str → Nat} (hf : ∀ k, dictGet d k = coefOf (f k)) (key : Str) {n : Nat}
-    (hn : 1 ≤ n) (k : Str) :
-    dictGet (dictAdd d key (Coef.ofNat n)) k = coefOf (f k + if key = k then n else 0) := by
-  rw [dictGet_dictAdd]
-  by_cases h : key = k
-  · subst h
-    simp only [if_true, hf, coefOf_getD, ofNat_add]
-    unfold coefOf; rw [if_neg (by omega)]
-  · simp [h, hf]
+/-- the accumulation of `_parse_multiplicity`, seen from one key -/
+def specAcc (inact : Bool) (k : Str) : Option Coef → List Term → Option Coef
+  | cur, [] => cur
+  | cur, t :: ts =>
+    specAcc inact k (if t.inactive = inact ∧ t.key = k then some ((cur.getD (Coef.ofNat 0)).add t.coef) else cur) ts
 
 theorem dictGet_accum (inact : Bool) (p : Term → Bool) (hp : ∀ t, p t = true ↔ t.inactive = inact)
-    (ts : List Term) (hn : ∀ t ∈ ts, 1 ≤ t.n) (d : Dict) (f : Str → Nat) (hf : ∀ k, dictGet d k = coefOf (f k)) (k : Str) :
-    dictGet (accum d (ts.filter p)) k = coefOf (f k + count inact k ts) := by
-  induction ts generalizing d f with
-  | nil => simp [accum, count, hf]
+    (ts : List Term) (d : Dict) (k : Str) :
+    dictGet (accum d (ts.filter p)) k = specAcc inact k (dictGet d k) ts := by
+  induction ts generalizing d with
+  | nil => rfl
   | cons t ts ih =>
-    simp only [List.filter_cons, count]
+    simp only [List.filter_cons, specAcc]
     by_cases hpt : p t = true
     · have hi := (hp t).mp hpt
       simp only [hpt, if_true, accum, List.foldl_cons]
-      have := ih (fun x hx => hn x (by simp [hx])) (dictAdd d t.key (Coef.ofNat t.n))
-        (fun k => f k + if t.key = k then t.n else 0) (fun k => dictGet_step hf t.key (hn t (by simp)) k)
+      have := ih (dictAdd d t.key t.coef)
       unfold accum at this
-      rw [this]
-      by_cases hk : t.key = k <;> simp [hi, hk, Nat.add_assoc]
+      rw [this, dictGet_dictAdd]
+      by_cases hk : t.key = k
+      · subst hk; simp [hi]
+      · simp [hk]
     · have hi : ¬ t.inactive = inact := fun e => hpt ((hp t).mpr e)
       simp only [hpt, Bool.false_eq_true, if_false]
-      rw [ih (fun x hx => hn x (by simp [hx])) d f hf]
-      simp [hi]
+      rw [ih d]; simp [hi]
 
-theorem dictGet_actD (ts : List Term) (hn : ∀ t ∈ ts, 1 ≤ t.n) (k : Str) :
-    dictGet (actD ts) k = coefOf (count false k ts) := by
-  have := dictGet_accum false (fun t => !t.inactive) (by intro t; cases t.inactive <;> simp) ts hn [] (fun _ => 0)
-    (by intro k; rfl) k
-  simpa [actD] using this
+theorem matching_cons (inact : Bool) (k : Str) (t : Term) (ts : List Term) :
+    matching inact k (t :: ts) = if t.inactive = inact ∧ t.key = k then t :: matching inact k ts else matching inact k ts := by
+  unfold matching
+  by_cases h : t.inactive = inact ∧ t.key = k
+  · simp [List.filter_cons, h.1, h.2]
+  · have : (t.inactive == inact && t.key == k) = false := by
+      rcases Classical.not_and_iff_not_or_not.mp h with h1 | h1 <;> simp [h1]
+    simp [List.filter_cons, this, h]
 
-theorem dictGet_inaD (ts : List Term) (hn : ∀ t ∈ ts, 1 ≤ t.n) (k : Str) :
-    dictGet (inaD ts) k = coefOf (count true k ts) := by
-  have := dictGet_accum true (fun t => t.inactive) (by intro t; cases t.inactive <;> simp) ts hn [] (fun _ => 0)
-    (by intro k; rfl) k
-  simpa [inaD] using this
+theorem specAcc_eq (inact : Bool) (k : Str) (cur : Option Coef) (ts : List Term) :
+    specAcc inact k cur ts =
+      match matching inact k ts with
+      | [] => cur
+      | ms => some (ms.foldl (fun c t => c.add t.coef) (cur.getD (Coef.ofNat 0))) := by
+  induction ts generalizing cur with
+  | nil => rfl
+  | cons t ts ih =>
+    rw [specAcc, ih, matching_cons]
+    by_cases h : t.inactive = inact ∧ t.key = k
+    · simp only [h, and_self, if_true, Option.getD_some, List.foldl_cons]
+      cases matching inact k ts <;> rfl
+    · simp only [h, if_false]
+
+theorem foldl_coef (ms : List Term) (c : Coef) :
+    ms.foldl (fun c t => c.add t.coef) c =
+      ⟨ms.foldl (fun s t => s + t.value) c.val, c.isFloat || ms.any Term.isDec⟩ := by
+  induction ms generalizing c with
+  | nil => simp
+  | cons t ms ih =>
+    rw [List.foldl_cons, ih, List.foldl_cons]
+    simp [Coef.add, Term.coef, Bool.or_assoc]
+
+theorem specAcc_written (inact : Bool) (k : Str) (ts : List Term) : specAcc inact k none ts = written inact k ts := by
+  rw [specAcc_eq]; unfold written
+  cases h : matching inact k ts with
+  | nil => rfl
+  | cons t ms =>
+    simp only [Option.getD_none]
+    rw [foldl_coef]
+    simp [Coef.ofNat]
+
+theorem dictGet_actD (ts : List Term) (k : Str) : dictGet (actD ts) k = written false k ts := by
+  have := dictGet_accum false (fun t => !t.inactive) (by intro t; cases t.inactive <;> simp) ts [] k
+  rw [← specAcc_written]; simpa [actD, dictGet] using this
+
+theorem dictGet_inaD (ts : List Term) (k : Str) : dictGet (inaD ts) k = written true k ts := by
+  have := dictGet_accum true (fun t => t.inactive) (by intro t; cases t.inactive <;> simp) ts [] k
+  rw [← specAcc_written]; simpa [inaD, dictGet] using this
 
 theorem keys_dictAdd (d : Dict) (k : Str) (c : Coef) :
     keysOf (dictAdd d k c) = if k ∈ keysOf d then keysOf d else keysOf d ++ [k] := by
@@ -1277,161 +1649,227 @@ def parsedOf (reac prod : List Term) : Reaction :=
 theorem nodup_actD (ts : List Term) : (keysOf (actD ts)).Nodup := nodup_accum [] _ (by simp [keysOf])
 theorem nodup_inaD (ts : List Term) : (keysOf (inaD ts)).Nodup := nodup_accum [] _ (by simp [keysOf])
 
-theorem get_sorted_actD (ts : List Term) (hn : ∀ t ∈ ts, 1 ≤ t.n) (k : Str) :
-    dictGet (sortDict (actD ts)) k = coefOf (count false k ts) := by
-  rw [(sortDict_spec (nodup_actD ts)).2, dictGet_actD ts hn]
+theorem get_sorted_actD (ts : List Term) (k : Str) : dictGet (sortDict (actD ts)) k = written false k ts := by
+  rw [(sortDict_spec (nodup_actD ts)).2, dictGet_actD ts]
 
-theorem get_sorted_inaD (ts : List Term) (hn : ∀ t ∈ ts, 1 ≤ t.n) (k : Str) :
-    dictGet (sortDict (inaD ts)) k = coefOf (count true k ts) := by
-  rw [(sortDict_spec (nodup_inaD ts)).2, dictGet_inaD ts hn]
+theorem get_sorted_inaD (ts : List Term) (k : Str) : dictGet (sortDict (inaD ts)) k = written true k ts := by
+  rw [(sortDict_spec (nodup_inaD ts)).2, dictGet_inaD ts]
 
-theorem getD_of_coefOf {d : Dict} {k : Str} {n : Nat} (h : dictGet d k = coefOf n) : dictGetD d k = (n : Rat) := by
-  unfold dictGetD; rw [h]
-  by_cases h0 : n = 0
-  · subst h0; simp [coefOf]
-  · simp [coefOf, h0, Coef.ofNat]
+theorem dictGetD_eq (d : Dict) (k : Str) : dictGetD d k = valD (dictGet d k) := by
+  unfold dictGetD valD; cases dictGet d k <;> rfl
 
-theorem AllNat_dictAdd {d : Dict} (k : Str) (n : Nat) (h : ∀ kv ∈ d, ∃ m, kv.2 = Coef.ofNat m) :
-    ∀ kv ∈ dictAdd d k (Coef.ofNat n), ∃ m, kv.2 = Coef.ofNat m := by
+/-- in a dictionary without repeated keys, membership of an entry is what the lookup returns -/
+theorem mem_iff_get {d : Dict} (hd : (keysOf d).Nodup) (k : Str) (v : Coef) : (k, v) ∈ d ↔ dictGet d k = some v := by
   induction d with
-  | nil => intro kv hkv; simp [dictAdd] at hkv; subst hkv; exact ⟨0 + n, ofNat_add 0 n⟩
+  | nil => simp [dictGet]
   | cons x t ih =>
     obtain ⟨a, b⟩ := x
-    intro kv hkv
-    simp only [dictAdd] at hkv
-    split at hkv
-    · simp only [List.mem_cons] at hkv
-      rcases hkv with hkv | hkv
-      · obtain ⟨m, hm⟩ := h (a, b) (by simp)
-        subst hkv; simp only at hm ⊢; rw [hm]; exact ⟨m + n, ofNat_add m n⟩
-      · exact h kv (by simp [hkv])
-    · simp only [List.mem_cons] at hkv
-      rcases hkv with hkv | hkv
-      · exact h kv (by simp [hkv])
-      · exact ih (fun x hx => h x (by simp [hx])) kv hkv
+    simp only [keysOf, List.map_cons, List.nodup_cons] at hd
+    simp only [List.mem_cons, dictGet, Prod.mk.injEq]
+    by_cases h : a = k
+    · subst h
+      simp only [if_true, Option.some.injEq, true_and]
+      constructor
+      · rintro (h1 | h1)
+        · exact h1.symm
+        · exact absurd (List.mem_map.mpr ⟨(a, v), h1, rfl⟩) hd.1
+      · intro h1; exact Or.inl h1.symm
+    · simp only [h, if_false]
+      rw [← ih hd.2]
+      constructor
+      · rintro (h1 | h1)
+        · exact absurd h1.1.symm h
+        · exact h1
+      · intro h1; exact Or.inr h1
 
-theorem AllNat_accum (d : Dict) (ts : List Term) (h : ∀ kv ∈ d, ∃ m, kv.2 = Coef.ofNat m) :
-    ∀ kv ∈ accum d ts, ∃ m, kv.2 = Coef.ofNat m := by
-  induction ts generalizing d with
-  | nil => exact h
-  | cons t ts ih => exact ih _ (AllNat_dictAdd _ _ h)
+theorem written_some_iff {i : Bool} {k : Str} {ts : List Term} :
+    written i k ts ≠ none ↔ ∃ t ∈ ts, t.inactive = i ∧ t.key = k := by
+  unfold written
+  cases h : matching i k ts with
+  | nil =>
+    simp only [ne_eq, not_true_eq_false, false_iff, not_exists, not_and]
+    intro t ht hi hk
+    have : t ∈ matching i k ts := by unfold matching; simp [ht, hi, hk]
+    rw [h] at this; simp at this
+  | cons t ms =>
+    simp only [ne_eq, reduceCtorEq, not_false_eq_true, true_iff]
+    have : t ∈ matching i k ts := by rw [h]; simp
+    unfold matching at this
+    simp only [List.mem_filter, Bool.and_eq_true, beq_iff_eq] at this
+    exact ⟨t, this.1, this.2.1, this.2.2⟩
 
-theorem AllNat_sorted_accum (ts : List Term) : ∀ kv ∈ sortDict (accum [] ts), ∃ m, kv.2 = Coef.ofNat m := by
-  intro kv hkv; rw [mem_sortDict] at hkv; exact AllNat_accum [] ts (by simp) kv hkv
+/-- every written coefficient of an admissible term is positive -/
+theorem value_nonneg {tok : Str} {t : Term} (_h : t.ok tok = true) : 0 ≤ t.value := by
+  unfold Term.value
+  split
+  · rename_i fr _
+    unfold decValue
+    rw [Rat.div_def]
+    apply Rat.mul_nonneg Rat.natCast_nonneg
+    have : (0 : Rat) < ((10 ^ fr.length : Nat) : Rat) := Rat.natCast_pos.mpr (Nat.pow_pos (by decide))
+    exact Rat.le_of_lt (Rat.inv_pos.mpr this)
+  · exact Rat.natCast_nonneg
 
-theorem natDict_checks {d : Dict} (h : ∀ kv ∈ d, ∃ m, kv.2 = Coef.ofNat m) :
-    d.all (fun kv => !(kv.2.val < 0)) = true ∧ d.all (fun kv => kv.2.val.den == 1) = true := by
-  constructor <;> rw [List.all_eq_true] <;> intro kv hkv <;> obtain ⟨m, hm⟩ := h kv hkv <;> rw [hm]
-  · have : ¬ ((m : Rat) < 0) := Rat.not_lt.mpr Rat.natCast_nonneg
-    simp [Coef.ofNat, this]
-  · simp [Coef.ofNat]
+theorem foldl_nonneg (ms : List Term) (h : ∀ t ∈ ms, 0 ≤ t.value) (a : Rat) (ha : 0 ≤ a) :
+    0 ≤ ms.foldl (fun s t => s + t.value) a := by
+  induction ms generalizing a with
+  | nil => exact ha
+  | cons t ms ih =>
+    exact ih (fun x hx => h x (by simp [hx])) _ (Rat.add_nonneg ha (h t (by simp)))
 
-theorem parsedOf_positive_integral (reac prod : List Term) :
-    (parsedOf reac prod).allPositive = true ∧ (parsedOf reac prod).allIntegral = true := by
-  have a := natDict_checks (AllNat_sorted_accum (reac.filter (fun t => !t.inactive)))
-  have b := natDict_checks (AllNat_sorted_accum (prod.filter (fun t => !t.inactive)))
-  have c := natDict_checks (AllNat_sorted_accum (reac.filter (fun t => t.inactive)))
-  have d := natDict_checks (AllNat_sorted_accum (prod.filter (fun t => t.inactive)))
-  simp only [Reaction.allPositive, Reaction.allIntegral, Reaction.allDicts, parsedOf, actD, inaD, List.all_cons,
-    List.all_nil, Bool.and_true, Bool.and_eq_true]
-  exact ⟨⟨a.1, b.1, c.1, d.1⟩, ⟨a.2, b.2, c.2, d.2⟩⟩
+theorem written_nonneg {tok : Str} {i : Bool} {k : Str} {ts : List Term} (h : ∀ t ∈ ts, t.ok tok = true) {c : Coef}
+    (hc : written i k ts = some c) : 0 ≤ c.val := by
+  unfold written at hc
+  cases hm : matching i k ts with
+  | nil => rw [hm] at hc; simp at hc
+  | cons t ms =>
+    rw [hm] at hc; simp only [Option.some.injEq] at hc
+    rw [← hc]; simp only
+    apply foldl_nonneg _ _ _ (Rat.le_refl)
+    intro x hx
+    have : x ∈ matching i k ts := by rw [hm]; exact hx
+    unfold matching at this
+    exact value_nonneg (h x (List.mem_filter.mp this).1)
 
-theorem parsedOf_net (reac prod : List Term) (hr : ∀ t ∈ reac, 1 ≤ t.n) (hp : ∀ t ∈ prod, 1 ≤ t.n) (k : Str) :
-    (parsedOf reac prod).net k = ((netWritten reac prod k : Int) : Rat) := by
-  simp only [Reaction.net, parsedOf, getD_of_coefOf (get_sorted_actD prod hp k), getD_of_coefOf (get_sorted_actD reac hr k),
-    getD_of_coefOf (get_sorted_inaD prod hp k), getD_of_coefOf (get_sorted_inaD reac hr k), netWritten,
-    Rat.intCast_sub, Rat.intCast_add, Rat.intCast_natCast]
-  grind
+theorem sorted_positive {tok : Str} {ts : List Term} (h : ∀ t ∈ ts, t.ok tok = true) :
+    (sortDict (actD ts)).all (fun kv => !(kv.2.val < 0)) = true ∧ (sortDict (inaD ts)).all (fun kv => !(kv.2.val < 0)) = true := by
+  constructor <;> rw [List.all_eq_true] <;> rintro ⟨k, v⟩ hkv <;> rw [mem_sortDict] at hkv
+  · have := (mem_iff_get (nodup_actD ts) k v).mp hkv
+    rw [dictGet_actD] at this
+    have := written_nonneg h this
+    simpa using Rat.not_lt.mpr this
+  · have := (mem_iff_get (nodup_inaD ts) k v).mp hkv
+    rw [dictGet_inaD] at this
+    have := written_nonneg h this
+    simpa using Rat.not_lt.mpr this
 
-theorem count_ne_zero_of_mem {ts : List Term} {t : Term} (ht : t ∈ ts) (hn : 1 ≤ t.n) :
-    count t.inactive t.key ts ≠ 0 := by
-  induction ts with
-  | nil => simp at ht
-  | cons x ts ih =>
-    simp only [List.mem_cons] at ht
-    simp only [count]
-    rcases ht with ht | ht
-    · subst ht; simp; omega
-    · have := ih ht; omega
+theorem parsedOf_positive {tok : Str} {reac prod : List Term} (hr : ∀ t ∈ reac, t.ok tok = true)
+    (hp : ∀ t ∈ prod, t.ok tok = true) : (parsedOf reac prod).allPositive = true := by
+  simp only [Reaction.allPositive, Reaction.allDicts, parsedOf, List.all_cons, List.all_nil, Bool.and_true, Bool.and_eq_true]
+  exact ⟨(sorted_positive hr).1, (sorted_positive hp).1, (sorted_positive hr).2, (sorted_positive hp).2⟩
 
-theorem exists_of_count_ne_zero {i : Bool} {k : Str} {ts : List Term} (h : count i k ts ≠ 0) :
-    ∃ t ∈ ts, t.key = k := by
-  induction ts with
-  | nil => simp [count] at h
-  | cons x ts ih =>
-    simp only [count] at h
-    by_cases hx : x.inactive = i ∧ x.key = k
-    · exact ⟨x, by simp, hx.2⟩
-    · simp only [hx, if_false, Nat.zero_add] at h
-      obtain ⟨t, ht, hk⟩ := ih h
-      exact ⟨t, by simp [ht], hk⟩
+/-- `check_all_integral` on the parsed object is exactly: every written total is a whole number -/
+theorem sorted_integral (ts : List Term) :
+    ((sortDict (actD ts)).all (fun kv => kv.2.val.den == 1) && (sortDict (inaD ts)).all (fun kv => kv.2.val.den == 1)) =
+      ts.all (fun t => [false, true].all fun i => match written i t.key ts with | some c => c.val.den == 1 | none => true) := by
+  rw [Bool.eq_iff_iff]
+  simp only [Bool.and_eq_true, List.all_eq_true, List.mem_cons, List.not_mem_nil, or_false, forall_eq_or_imp, forall_eq]
+  constructor
+  · rintro ⟨h1, h2⟩ t ht
+    constructor
+    · cases hw : written false t.key ts with
+      | none => rfl
+      | some c =>
+        have : (t.key, c) ∈ sortDict (actD ts) := by
+          rw [mem_sortDict, mem_iff_get (nodup_actD ts), dictGet_actD]; exact hw
+        exact h1 _ this
+    · cases hw : written true t.key ts with
+      | none => rfl
+      | some c =>
+        have : (t.key, c) ∈ sortDict (inaD ts) := by
+          rw [mem_sortDict, mem_iff_get (nodup_inaD ts), dictGet_inaD]; exact hw
+        exact h2 _ this
+  · intro h
+    constructor
+    · rintro ⟨k, v⟩ hkv
+      rw [mem_sortDict, mem_iff_get (nodup_actD ts), dictGet_actD] at hkv
+      obtain ⟨t, ht, _, hk⟩ := written_some_iff.mp (by rw [hkv]; simp : written false k ts ≠ none)
+      have := (h t ht).1
+      rw [hk, hkv] at this; exact this
+    · rintro ⟨k, v⟩ hkv
+      rw [mem_sortDict, mem_iff_get (nodup_inaD ts), dictGet_inaD] at hkv
+      obtain ⟨t, ht, _, hk⟩ := written_some_iff.mp (by rw [hkv]; simp : written true k ts ≠ none)
+      have := (h t ht).2
+      rw [hk, hkv] at this; exact this
 
-theorem coefOf_ne_none {n : Nat} : coefOf n ≠ none ↔ n ≠ 0 := by
-  unfold coefOf; split <;> simp_all
+theorem parsedOf_integral (reac prod : List Term) : (parsedOf reac prod).allIntegral = integralWritten reac prod := by
+  have a := sorted_integral reac
+  have b := sorted_integral prod
+  refine Eq.trans (b := (((sortDict (actD reac)).all (fun kv => kv.2.val.den == 1) && (sortDict (inaD reac)).all (fun kv => kv.2.val.den == 1))
+      && ((sortDict (actD prod)).all (fun kv => kv.2.val.den == 1) && (sortDict (inaD prod)).all (fun kv => kv.2.val.den == 1)))) ?_ ?_
+  · simp only [Reaction.allIntegral, Reaction.allDicts, parsedOf, List.all_cons, List.all_nil, Bool.and_true]
+    cases (sortDict (actD reac)).all (fun kv => kv.2.val.den == 1) <;>
+    cases (sortDict (actD prod)).all (fun kv => kv.2.val.den == 1) <;>
+    cases (sortDict (inaD reac)).all (fun kv => kv.2.val.den == 1) <;>
+    cases (sortDict (inaD prod)).all (fun kv => kv.2.val.den == 1) <;> rfl
+  · rw [a, b]
+    simp only [integralWritten, List.all_cons, List.all_nil, Bool.and_true]
+    rfl
 
-theorem mem_keys_parsed_act {ts : List Term} (hn : ∀ t ∈ ts, 1 ≤ t.n) {k : Str} :
-    k ∈ keysOf (sortDict (actD ts)) ↔ count false k ts ≠ 0 := by
-  rw [mem_keysOf_iff_get, get_sorted_actD ts hn, coefOf_ne_none]
+theorem parsedOf_net (reac prod : List Term) (k : Str) : (parsedOf reac prod).net k = netWritten reac prod k := by
+  simp only [Reaction.net, parsedOf, dictGetD_eq, get_sorted_actD, get_sorted_inaD, netWritten]
 
-theorem mem_keys_parsed_ina {ts : List Term} (hn : ∀ t ∈ ts, 1 ≤ t.n) {k : Str} :
-    k ∈ keysOf (sortDict (inaD ts)) ↔ count true k ts ≠ 0 := by
-  rw [mem_keysOf_iff_get, get_sorted_inaD ts hn, coefOf_ne_none]
+theorem mem_keys_parsed_act {ts : List Term} {k : Str} :
+    k ∈ keysOf (sortDict (actD ts)) ↔ ∃ t ∈ ts, t.inactive = false ∧ t.key = k := by
+  rw [mem_keysOf_iff_get, get_sorted_actD, written_some_iff]
 
-theorem parsedOf_keys (reac prod : List Term) (hr : ∀ t ∈ reac, 1 ≤ t.n) (hp : ∀ t ∈ prod, 1 ≤ t.n) (k : Str) :
+theorem mem_keys_parsed_ina {ts : List Term} {k : Str} :
+    k ∈ keysOf (sortDict (inaD ts)) ↔ ∃ t ∈ ts, t.inactive = true ∧ t.key = k := by
+  rw [mem_keysOf_iff_get, get_sorted_inaD, written_some_iff]
+
+theorem parsedOf_keys (reac prod : List Term) (k : Str) :
     k ∈ (parsedOf reac prod).keys ↔ ∃ t ∈ reac ++ prod, t.key = k := by
   have e : (parsedOf reac prod).keys = keysOf (sortDict (actD reac)) ++ keysOf (sortDict (actD prod))
       ++ keysOf (sortDict (inaD reac)) ++ keysOf (sortDict (inaD prod)) := rfl
   rw [e]
-  simp only [List.mem_append, mem_keys_parsed_act hr, mem_keys_parsed_act hp, mem_keys_parsed_ina hr, mem_keys_parsed_ina hp]
+  simp only [List.mem_append, mem_keys_parsed_act, mem_keys_parsed_ina]
   constructor
-  · rintro (((h | h) | h) | h) <;> obtain ⟨t, ht, hk⟩ := exists_of_count_ne_zero h
+  · rintro (((⟨t, ht, _, hk⟩ | ⟨t, ht, _, hk⟩) | ⟨t, ht, _, hk⟩) | ⟨t, ht, _, hk⟩)
     · exact ⟨t, Or.inl ht, hk⟩
     · exact ⟨t, Or.inr ht, hk⟩
     · exact ⟨t, Or.inl ht, hk⟩
     · exact ⟨t, Or.inr ht, hk⟩
   · rintro ⟨t, ht | ht, hk⟩
-    · have := count_ne_zero_of_mem ht (hr t ht)
-      rw [hk] at this
-      cases hi : t.inactive <;> rw [hi] at this <;> simp [this]
-    · have := count_ne_zero_of_mem ht (hp t ht)
-      rw [hk] at this
-      cases hi : t.inactive <;> rw [hi] at this <;> simp [this]
+    · cases hi : t.inactive
+      · exact Or.inl (Or.inl (Or.inl ⟨t, ht, hi, hk⟩))
+      · exact Or.inl (Or.inr ⟨t, ht, hi, hk⟩)
+    · cases hi : t.inactive
+      · exact Or.inl (Or.inl (Or.inr ⟨t, ht, hi, hk⟩))
+      · exact Or.inr ⟨t, ht, hi, hk⟩
 
-theorem parsedOf_anyEffect (reac prod : List Term) (hr : ∀ t ∈ reac, 1 ≤ t.n) (hp : ∀ t ∈ prod, 1 ≤ t.n) :
-    (parsedOf reac prod).anyEffect = hasEffect reac prod := by
+theorem parsedOf_anyEffect (reac prod : List Term) : (parsedOf reac prod).anyEffect = hasEffect reac prod := by
   rw [Bool.eq_iff_iff]
   simp only [Reaction.anyEffect, hasEffect, List.any_eq_true, bne_iff_ne, ne_eq]
   constructor
   · rintro ⟨k, hk, hnet⟩
-    obtain ⟨t, ht, htk⟩ := (parsedOf_keys reac prod hr hp k).mp hk
+    obtain ⟨t, ht, htk⟩ := (parsedOf_keys reac prod k).mp hk
     refine ⟨t, ht, ?_⟩
-    rw [htk]; intro h0; apply hnet
-    rw [parsedOf_net reac prod hr hp, h0]; rfl
+    rw [htk, ← parsedOf_net]; exact hnet
   · rintro ⟨t, ht, hnet⟩
-    refine ⟨t.key, (parsedOf_keys reac prod hr hp t.key).mpr ⟨t, ht, rfl⟩, ?_⟩
-    rw [parsedOf_net reac prod hr hp]
-    intro h0; exact hnet (Rat.intCast_eq_zero_iff.mp h0)
+    refine ⟨t.key, (parsedOf_keys reac prod t.key).mpr ⟨t, ht, rfl⟩, ?_⟩
+    rw [parsedOf_net]; exact hnet
 
-/-- `Reaction.from_string` / `Equilibrium.from_string` on a written line, completely determined -/
+/-- the outcome of the constructor checks on a written reaction -/
+def outcome (reac prod : List Term) (param : Option Str) : Except Err Reaction :=
+  if hasEffect reac prod then
+    (if integralWritten reac prod then .ok { parsedOf reac prod with param := param } else .error .nonIntegral)
+  else .error .noEffect
+
+theorem check_parsed {tok : Str} {reac prod : List Term} (hr : ∀ t ∈ reac, t.ok tok = true)
+    (hp : ∀ t ∈ prod, t.ok tok = true) (param : Option Str) :
+    Reaction.check ⟨sortDict (actD reac), sortDict (actD prod), sortDict (inaD reac), sortDict (inaD prod), param, none⟩
+      = outcome reac prod param := by
+  have h1 : Reaction.anyEffect ⟨sortDict (actD reac), sortDict (actD prod), sortDict (inaD reac), sortDict (inaD prod), param, none⟩
+      = (parsedOf reac prod).anyEffect := rfl
+  have h2 : Reaction.allPositive ⟨sortDict (actD reac), sortDict (actD prod), sortDict (inaD reac), sortDict (inaD prod), param, none⟩
+      = (parsedOf reac prod).allPositive := rfl
+  have h3 : Reaction.allIntegral ⟨sortDict (actD reac), sortDict (actD prod), sortDict (inaD reac), sortDict (inaD prod), param, none⟩
+      = (parsedOf reac prod).allIntegral := rfl
+  unfold Reaction.check outcome
+  rw [h1, h2, h3, parsedOf_anyEffect, parsedOf_positive hr hp, parsedOf_integral]
+  cases hasEffect reac prod <;> cases integralWritten reac prod <;> simp [parsedOf]
+
+/-- `Reaction.from_string` / `Equilibrium.from_string` on a written line with any tail, completely determined -/
 theorem toReaction_written {tok : Str} (allowed : Allowed) (htok : tokOK tok = true) {reac prod : List Term}
-    (hr : ∀ t ∈ reac, t.ok tok = true) (hp : ∀ t ∈ prod, t.ok tok = true) :
-    toReaction allowed tok (writeLine tok reac prod) =
-      if allAllowed allowed reac prod then
-        (if hasEffect reac prod then .ok (parsedOf reac prod) else .error .noEffect)
-      else .error .unknownKey := by
-  have hr1 : ∀ t ∈ reac, 1 ≤ t.n := fun t ht => (Term.ok_spec (hr t ht)).2.1
-  have hp1 : ∀ t ∈ prod, 1 ≤ t.n := fun t ht => (Term.ok_spec (hp t ht)).2.1
+    (hr : ∀ t ∈ reac, t.ok tok = true) (hp : ∀ t ∈ prod, t.ok tok = true) (tl : List Str)
+    (htl : ∀ p ∈ tl, ';' ∉ p ∧ '\n' ∉ p) :
+    toReaction allowed tok (writeLine tok reac prod ++ tailText tl) =
+      if allAllowed allowed reac prod then outcome reac prod (tl.head?.map strip) else .error .unknownKey := by
   unfold toReaction
-  rw [toRaw_written allowed htok hr hp]
+  rw [toRaw_written allowed htok hr hp tl htl]
   by_cases hA : allAllowed allowed reac prod = true
   · simp only [hA, if_true, mkReaction]
-    have e : (⟨sortDict (actD reac), sortDict (actD prod), sortDict (inaD reac), sortDict (inaD prod), none, none⟩ : Reaction)
-        = parsedOf reac prod := rfl
-    rw [e]
-    unfold Reaction.check
-    rw [parsedOf_anyEffect reac prod hr1 hp1, (parsedOf_positive_integral reac prod).1,
-      (parsedOf_positive_integral reac prod).2]
-    cases hasEffect reac prod <;> simp
+    exact check_parsed hr hp _
   · simp only [hA, if_false, Bool.false_eq_true]
 
 /-! ### rejection of unknown keys, for every line -/
@@ -1557,8 +1995,8 @@ theorem termOf_ok {tok : Str} {kv : Str × Coef} (h : GoodEntry tok kv) : (termO
   simp only at hc hk hi; subst hc
   rw [termOf_ofNat]
   by_cases h1 : n = 1
-  · subst h1; simp [Term.ok, hk, hi]
-  · simp [Term.ok, hk, h1, hn]
+  · subst h1; simp [Term.ok, Term.coefOK, hk, hi]
+  · simp [Term.ok, Term.coefOK, hk, h1, hn]
 
 theorem coefStr_ofNat (n : Nat) : coefStr (Coef.ofNat n) = some (natStr n) := by
   have : ¬ ((n : Int) < 0) := by omega
@@ -1622,7 +2060,9 @@ theorem accum_fresh (pre suf : Dict) (hs : ∀ kv ∈ suf, ∃ n, kv.2 = Coef.of
         have hne : a ≠ k := fun e => hk (by simp [keysOf, e])
         have hkp : k ∉ keysOf p := fun e => hk (by simp only [keysOf, List.map_cons, List.mem_cons]; right; exact e)
         simp [dictAdd, hne, ihp hkp]
-    simp only [termsOf, List.map_cons, termOf_ofNat, accum, List.foldl_cons, hadd]
+    have hcoef : (⟨k, n, if n = 1 then CoefForm.omit else CoefForm.plain, false⟩ : Term).coef = Coef.ofNat n := by
+      by_cases h1 : n = 1 <;> simp [Term.coef, Term.value, Term.isDec, Coef.ofNat, h1]
+    simp only [termsOf, List.map_cons, termOf_ofNat, accum, List.foldl_cons, hcoef, hadd]
     have := ih (pre ++ [(k, Coef.ofNat n)]) (fun kv hkv => hs kv (by simp [hkv])) (by simpa [List.append_assoc] using hnd)
     simp only [accum, termsOf] at this
     rw [this]; simp
@@ -1674,128 +2114,365 @@ theorem parsedOf_termsOf {tok : Str} {a b : Dict} (ha : GoodDict tok a) (hb : Go
   rw [ea, eb, ia, ib, sortDict_sorted ha.1, sortDict_sorted hb.1]
   rfl
 
-/-- parse ∘ print on a reaction without inactive groups returns the same dictionaries -/
+theorem goodDict_terms {tok : Str} {d : Dict} (h : GoodDict tok d) : ∀ t ∈ termsOf d, t.ok tok = true := by
+  intro t ht; simp only [termsOf, List.mem_map] at ht
+  obtain ⟨kv, hkv, rfl⟩ := ht; exact termOf_ok (h.2 kv hkv)
+
+theorem natDict_integral {tok : Str} {d : Dict} (h : GoodDict tok d) : d.all (fun kv => kv.2.val.den == 1) = true := by
+  rw [List.all_eq_true]; intro kv hkv
+  obtain ⟨n, _, hc, _⟩ := h.2 kv hkv
+  rw [hc]; simp [Coef.ofNat]
+
+/-- parse ∘ print on a reaction without inactive groups: the printed text, with the parameter when asked for, is the
+    written line of its terms; parsing returns the same dictionaries and the printed parameter text -/
+theorem parse_print_gen {tok : Str} (htok : tokOK tok = true) {r : Reaction} (hre : GoodDict tok r.reac)
+    (hpr : GoodDict tok r.prod) (hir : r.inactReac = []) (hip : r.inactProd = []) (heff : r.anyEffect = true)
+    (wp : Bool) (hpar : wp = true → ∀ p, r.param = some p → Tight p ∧ ';' ∉ p ∧ '\n' ∉ p) :
+    printReaction tok wp false r = some (writeLine tok (termsOf r.reac) (termsOf r.prod) ++
+        tailText (if wp then (r.param.map (' ' :: ·)).toList else [])) ∧
+      toReaction .none tok (writeLine tok (termsOf r.reac) (termsOf r.prod) ++
+        tailText (if wp then (r.param.map (' ' :: ·)).toList else []))
+        = .ok ⟨r.reac, r.prod, [], [], if wp then r.param else none, none⟩ := by
+  have hr := goodDict_terms hre
+  have hp := goodDict_terms hpr
+  have hpo := parsedOf_termsOf hre hpr
+  have he : hasEffect (termsOf r.reac) (termsOf r.prod) = true := by
+    rw [← parsedOf_anyEffect, hpo]
+    simpa [Reaction.anyEffect, Reaction.keys, Reaction.net, hir, hip] using heff
+  have hint : integralWritten (termsOf r.reac) (termsOf r.prod) = true := by
+    rw [← parsedOf_integral, hpo]
+    simp [Reaction.allIntegral, Reaction.allDicts, natDict_integral hre, natDict_integral hpr]
+  constructor
+  · unfold printReaction; rw [reactionStr_good hre.2 hpr.2 hir hip]
+    cases wp
+    · cases r.param <;> simp [tailText]
+    · cases hpm : r.param <;> simp [tailText, paramSeparator_is]
+  · rw [toReaction_written .none htok hr hp]
+    · have hA : allAllowed .none (termsOf r.reac) (termsOf r.prod) = true := by simp [allAllowed, Allowed.has]
+      simp only [hA, if_true, outcome, he, hint, hpo]
+      cases wp
+      · simp
+      · cases hpm : r.param with
+        | none => simp
+        | some p =>
+          have := strip_pad (pre := [' ']) (post := []) (hpar rfl p hpm).1 (by simp [isPySpace_space]) (by simp)
+          simp only [List.append_nil, List.cons_append, List.nil_append] at this
+          simp [this]
+    · intro q hq
+      cases wp
+      · simp at hq
+      · cases hpm : r.param with
+        | none => rw [hpm] at hq; simp at hq
+        | some p =>
+          rw [hpm] at hq; simp at hq; subst hq
+          obtain ⟨_, h2, h3⟩ := hpar rfl p hpm
+          exact ⟨by simp [h2], by simp [h3]⟩
+
 theorem parse_print {tok : Str} (htok : tokOK tok = true) {r : Reaction} (hre : GoodDict tok r.reac)
     (hpr : GoodDict tok r.prod) (hir : r.inactReac = []) (hip : r.inactProd = []) (heff : r.anyEffect = true) :
     ∃ s, printReaction tok false false r = some s ∧
       toReaction .none tok s = .ok ⟨r.reac, r.prod, [], [], none, none⟩ := by
-  refine ⟨writeLine tok (termsOf r.reac) (termsOf r.prod), ?_, ?_⟩
-  · unfold printReaction; rw [reactionStr_good hre.2 hpr.2 hir hip]
-  · have hr : ∀ t ∈ termsOf r.reac, t.ok tok = true := by
-      intro t ht; simp only [termsOf, List.mem_map] at ht
-      obtain ⟨kv, hkv, rfl⟩ := ht; exact termOf_ok (hre.2 kv hkv)
-    have hp : ∀ t ∈ termsOf r.prod, t.ok tok = true := by
-      intro t ht; simp only [termsOf, List.mem_map] at ht
-      obtain ⟨kv, hkv, rfl⟩ := ht; exact termOf_ok (hpr.2 kv hkv)
-    have hr1 : ∀ t ∈ termsOf r.reac, 1 ≤ t.n := fun t ht => (Term.ok_spec (hr t ht)).2.1
-    have hp1 : ∀ t ∈ termsOf r.prod, 1 ≤ t.n := fun t ht => (Term.ok_spec (hp t ht)).2.1
-    have he : hasEffect (termsOf r.reac) (termsOf r.prod) = true := by
-      rw [← parsedOf_anyEffect _ _ hr1 hp1, parsedOf_termsOf hre hpr]
-      simpa [Reaction.anyEffect, Reaction.keys, Reaction.net, hir, hip] using heff
-    rw [toReaction_written .none htok hr hp, he, parsedOf_termsOf hre hpr]
-    simp [allAllowed, Allowed.has]
-
-/-! ### lines that carry a parameter: `stoichiometry; parameter` -/
-
-theorem toRaw_written_param {tok : Str} (allowed : Allowed) (htok : tokOK tok = true) {reac prod : List Term}
-    (hr : ∀ t ∈ reac, t.ok tok = true) (hp : ∀ t ∈ prod, t.ok tok = true) {p : Str} (hpt : Tight p) (hps : ';' ∉ p) :
-    toRaw allowed tok (writeLine tok reac prod ++ ';' :: ' ' :: p) =
-      if allAllowed allowed reac prod then .ok ⟨actD reac, actD prod, inaD reac, inaD prod, some p, []⟩
-      else .error .unknownKey := by
-  have hA : rstripChars Printing.lineEnd (writeLine tok reac prod ++ ';' :: ' ' :: p)
-      = writeLine tok reac prod ++ ';' :: ' ' :: p := by
-    apply rstripChars_id
-    intro c hc
-    have e : writeLine tok reac prod ++ ';' :: ' ' :: p = (writeLine tok reac prod ++ [';', ' ']) ++ p := by simp
-    rw [e, List.getLast?_append] at hc
-    cases hl : p.getLast? with
-    | none => exact absurd (List.getLast?_eq_none_iff.mp hl) hpt.1
-    | some x =>
-      rw [hl] at hc; simp at hc; subst hc
-      have hx := hpt.2.2 x hl
-      have : x ≠ '\n' := by intro e; rw [e] at hx; exact absurd hx (by decide)
-      simp [lineEnd_is, this]
-  have hB : pySplit Printing.partSep (writeLine tok reac prod ++ ';' :: ' ' :: p)
-      = [writeLine tok reac prod, ' ' :: p] := by
-    rw [partSep_is]
-    have e : writeLine tok reac prod ++ ';' :: ' ' :: p = writeLine tok reac prod ++ [';'] ++ (' ' :: p) := by simp
-    rw [e, pySplit_first _ (by simp)]
-    · rw [pySplit_none]
-      apply isInfixB_false_of_not_mem (by simp)
-      intro c hc; simp only [List.mem_singleton]; intro e; subst e
-      simp only [List.mem_cons] at hc
-      rcases hc with hc | hc
-      · exact absurd hc (by decide)
-      · exact hps hc
-    · simp only [List.dropLast_singleton, List.append_nil]
-      apply isInfixB_false_of_not_mem (by simp)
-      intro c hc; simp only [List.mem_singleton]; intro e; subst e; exact line_noSemi htok hr hp hc
-  have hP : strip (' ' :: p) = p := by
-    have := strip_pad (pre := [' ']) (post := []) hpt (by simp [isPySpace_space]) (by simp)
-    simpa using this
-  have hC : strip (writeLine tok reac prod) = Rp reac ++ tok ++ Pp prod := by
-    rw [line_decomp]
-    apply strip_pad (core_tight htok hr hp)
-    · rcases lead_cases reac with h | h <;> simp [h, isPySpace_space]
-    · rcases lead_cases prod with h | h <;> simp [h, isPySpace_space]
-  have hD : isInfixB tok (Rp reac ++ tok ++ Pp prod) = true :=
-    isInfixB_append_right _ (isInfixB_append_left _ (isInfixB_self (tokOK_spec htok).1))
-  have hne : tok.isEmpty = false := by
-    cases tok with
-    | nil => exact absurd rfl (tokOK_spec htok).1
-    | cons _ _ => rfl
-  unfold toRaw
-  simp only [hA, hB, List.headD_cons, hC, hD, hne, hP, core_split htok hr hp, List.map_cons, List.map_nil,
-    termSep_is, elems_Rp htok hr, elems_Pp htok hp, Bool.not_true, Bool.false_eq_true, if_false,
-    parseSides, parseMult_active allowed hr, parseMult_inactive allowed hr, parseMult_active allowed hp,
-    parseMult_inactive allowed hp, allAllowed, List.drop]
-  by_cases h1 : (actD reac).all (fun kv => allowed.has kv.1) = true <;>
-  by_cases h2 : (inaD reac).all (fun kv => allowed.has kv.1) = true <;>
-  by_cases h3 : (actD prod).all (fun kv => allowed.has kv.1) = true <;>
-  by_cases h4 : (inaD prod).all (fun kv => allowed.has kv.1) = true <;> simp [h1, h2, h3, h4]
-
-theorem toReaction_written_param {tok : Str} (htok : tokOK tok = true) {reac prod : List Term}
-    (hr : ∀ t ∈ reac, t.ok tok = true) (hp : ∀ t ∈ prod, t.ok tok = true) {p : Str} (hpt : Tight p) (hps : ';' ∉ p)
-    (heff : hasEffect reac prod = true) :
-    toReaction .none tok (writeLine tok reac prod ++ ';' :: ' ' :: p) =
-      .ok { parsedOf reac prod with param := some p } := by
-  have hr1 : ∀ t ∈ reac, 1 ≤ t.n := fun t ht => (Term.ok_spec (hr t ht)).2.1
-  have hp1 : ∀ t ∈ prod, 1 ≤ t.n := fun t ht => (Term.ok_spec (hp t ht)).2.1
-  unfold toReaction
-  rw [toRaw_written_param .none htok hr hp hpt hps]
-  have hA : allAllowed .none reac prod = true := by simp [allAllowed, Allowed.has]
-  simp only [hA, if_true, mkReaction]
-  have h1 : Reaction.anyEffect ⟨sortDict (actD reac), sortDict (actD prod), sortDict (inaD reac), sortDict (inaD prod), some p, none⟩
-      = (parsedOf reac prod).anyEffect := rfl
-  have h2 : Reaction.allPositive ⟨sortDict (actD reac), sortDict (actD prod), sortDict (inaD reac), sortDict (inaD prod), some p, none⟩
-      = (parsedOf reac prod).allPositive := rfl
-  have h3 : Reaction.allIntegral ⟨sortDict (actD reac), sortDict (actD prod), sortDict (inaD reac), sortDict (inaD prod), some p, none⟩
-      = (parsedOf reac prod).allIntegral := rfl
-  unfold Reaction.check
-  rw [h1, h2, h3, parsedOf_anyEffect reac prod hr1 hp1, heff, (parsedOf_positive_integral reac prod).1,
-    (parsedOf_positive_integral reac prod).2]
-  rfl
+  have := parse_print_gen htok hre hpr hir hip heff false (by intro h; cases h)
+  exact ⟨_, this.1, by simpa using this.2⟩
 
 /-- parse ∘ print with the parameter printed: the parser receives exactly the printed parameter text -/
 theorem parse_print_param {tok : Str} (htok : tokOK tok = true) {r : Reaction} (hre : GoodDict tok r.reac)
     (hpr : GoodDict tok r.prod) (hir : r.inactReac = []) (hip : r.inactProd = []) (heff : r.anyEffect = true)
-    {p : Str} (hparam : r.param = some p) (hpt : Tight p) (hps : ';' ∉ p) :
+    {p : Str} (hparam : r.param = some p) (hpt : Tight p) (hps : ';' ∉ p) (hpn : '\n' ∉ p) :
     ∃ s, printReaction tok true false r = some s ∧
       toReaction .none tok s = .ok ⟨r.reac, r.prod, [], [], some p, none⟩ := by
-  refine ⟨writeLine tok (termsOf r.reac) (termsOf r.prod) ++ ';' :: ' ' :: p, ?_, ?_⟩
-  · unfold printReaction; rw [reactionStr_good hre.2 hpr.2 hir hip, hparam]
-    simp [paramSeparator_is]
-  · have hr : ∀ t ∈ termsOf r.reac, t.ok tok = true := by
-      intro t ht; simp only [termsOf, List.mem_map] at ht
-      obtain ⟨kv, hkv, rfl⟩ := ht; exact termOf_ok (hre.2 kv hkv)
-    have hp : ∀ t ∈ termsOf r.prod, t.ok tok = true := by
-      intro t ht; simp only [termsOf, List.mem_map] at ht
-      obtain ⟨kv, hkv, rfl⟩ := ht; exact termOf_ok (hpr.2 kv hkv)
-    have hr1 : ∀ t ∈ termsOf r.reac, 1 ≤ t.n := fun t ht => (Term.ok_spec (hr t ht)).2.1
-    have hp1 : ∀ t ∈ termsOf r.prod, 1 ≤ t.n := fun t ht => (Term.ok_spec (hp t ht)).2.1
-    have he : hasEffect (termsOf r.reac) (termsOf r.prod) = true := by
-      rw [← parsedOf_anyEffect _ _ hr1 hp1, parsedOf_termsOf hre hpr]
-      simpa [Reaction.anyEffect, Reaction.keys, Reaction.net, hir, hip] using heff
-    rw [toReaction_written_param htok hr hp hpt hps he, parsedOf_termsOf hre hpr]
+  have := parse_print_gen htok hre hpr hir hip heff true (by
+    intro _ q hq; rw [hparam] at hq; simp at hq; subst hq; exact ⟨hpt, hps, hpn⟩)
+  exact ⟨_, this.1, by simpa [hparam] using this.2⟩
+
+/-! ### systems: `ReactionSystem.string()` then `ReactionSystem.from_string` -/
+
+/-- a character that is no digit and none of the notation's own characters, and occurs neither in the token nor in any
+    key, does not occur in the written line -/
+theorem text_noChar {tok : Str} {t : Term} (h : t.ok tok = true) {c : Char} (hd : c.isDigit = false)
+    (hs : c ∉ [' ', '*', '.', '(', ')']) (hk : c ∉ t.key) : c ∉ t.text := by
+  have hb : c ∉ t.body := by
+    rw [body_eq]; intro hm
+    rcases List.mem_append.mp hm with hm | hm
+    · rcases bodyPre_chars h c hm with h1 | h1 | h1 | h1
+      · rw [h1] at hd; exact absurd hd (by simp)
+      all_goals (subst h1; simp at hs)
+    · exact hk hm
+  unfold Term.text
+  split
+  · intro hm
+    have e : '(' :: t.body ++ [')'] = ['('] ++ t.body ++ [')'] := rfl
+    rw [e] at hm
+    simp only [List.mem_append, List.mem_singleton] at hm
+    rcases hm with (hm | hm) | hm
+    · subst hm; simp at hs
+    · exact hb hm
+    · subst hm; simp at hs
+  · exact hb
+
+theorem sideText_noChar {tok : Str} {ts : List Term} (h : ∀ t ∈ ts, t.ok tok = true) {c : Char}
+    (hd : c.isDigit = false) (hs : c ∉ [' ', '*', '.', '(', ')']) (hp : c ≠ '+') (hk : ∀ t ∈ ts, c ∉ t.key) :
+    c ∉ sideText ts := by
+  induction ts with
+  | nil => simp [sideText, joinStrs]
+  | cons t ts ih =>
+    cases ts with
+    | nil => simpa [sideText, joinStrs] using text_noChar (h t (by simp)) hd hs (hk t (by simp))
+    | cons u ts =>
+      rw [sideText_cons2]
+      intro hm
+      simp only [List.mem_append] at hm
+      rcases hm with (hm | hm) | hm
+      · exact text_noChar (h t (by simp)) hd hs (hk t (by simp)) hm
+      · simp only [plusSep, List.mem_cons, List.not_mem_nil, or_false] at hm
+        rcases hm with hm | hm | hm
+        · subst hm; simp at hs
+        · exact hp hm
+        · subst hm; simp at hs
+      · exact ih (fun x hx => h x (by simp [hx])) (fun x hx => hk x (by simp [hx])) hm
+
+theorem line_noChar {tok : Str} {reac prod : List Term} (hr : ∀ t ∈ reac, t.ok tok = true)
+    (hp : ∀ t ∈ prod, t.ok tok = true) {c : Char} (hd : c.isDigit = false) (hs : c ∉ [' ', '*', '.', '(', ')'])
+    (hpl : c ≠ '+') (ht : c ∉ tok) (hk : ∀ t ∈ reac ++ prod, c ∉ t.key) : c ∉ writeLine tok reac prod := by
+  unfold writeLine
+  intro h
+  simp only [List.mem_append, List.mem_cons] at h
+  rcases h with h | h | h | h | h
+  · exact sideText_noChar hr hd hs hpl (fun t ht' => hk t (by simp [ht'])) h
+  · subst h; simp at hs
+  · exact ht h
+  · subst h; simp at hs
+  · exact sideText_noChar hp hd hs hpl (fun t ht' => hk t (by simp [ht'])) h
+
+theorem dropWhile_append_last {p : Char → Bool} (a : Str) {c : Char} (hc : p c = false) :
+    ∃ d, (a ++ [c]).dropWhile p = d ++ [c] := by
+  induction a with
+  | nil => exact ⟨[], by simp [List.dropWhile, hc]⟩
+  | cons x a ih =>
+    simp only [List.cons_append, List.dropWhile]
+    cases p x
+    · exact ⟨x :: a, rfl⟩
+    · exact ih
+
+/-- `strip` keeps the first character of a text that starts with a non-blank after its leading blanks -/
+theorem strip_head {pre x : Str} {c : Char} (hpre : ∀ d ∈ pre, isPySpace d = true) (hc : isPySpace c = false) :
+    ∃ r, strip (pre ++ c :: x) = c :: r := by
+  unfold strip lstrip rstrip
+  rw [dropWhile_pre hpre (by intro d hd; simp at hd; subst hd; exact hc)]
+  have e : (c :: x).reverse = x.reverse ++ [c] := by simp
+  obtain ⟨d, hd⟩ := dropWhile_append_last (p := isPySpace) x.reverse hc
+  rw [e, hd]
+  exact ⟨d.reverse, by simp⟩
+
+/-- first character of a printed line after `strip`: a digit, the first character of the first reactant key, or the
+    first character of the token -/
+theorem printed_head {tok : Str} (htok : tokOK tok = true) {a b : Dict} (ha : GoodDict tok a) (hb : GoodDict tok b)
+    (T : Str) : ∃ c r, strip (writeLine tok (termsOf a) (termsOf b) ++ T) = c :: r ∧
+      (c.isDigit = true ∨ tok.head? = some c ∨ ∃ kv ∈ a, kv.1.head? = some c) := by
+  have hr := goodDict_terms ha
+  have hp := goodDict_terms hb
+  have hcore := core_tight htok hr hp
+  rw [line_decomp]
+  cases hcr : Rp (termsOf a) ++ tok ++ Pp (termsOf b) with
+  | nil => exact absurd hcr hcore.1
+  | cons c x =>
+    have hcs : isPySpace c = false := hcore.2.1 c (by rw [hcr]; rfl)
+    have e : leadOf (termsOf a) ++ (c :: x) ++ leadOf (termsOf b) ++ T
+        = leadOf (termsOf a) ++ c :: (x ++ leadOf (termsOf b) ++ T) := by simp
+    obtain ⟨r, hr'⟩ := strip_head (pre := leadOf (termsOf a)) (x := x ++ leadOf (termsOf b) ++ T) (c := c)
+      (by rcases lead_cases (termsOf a) with h | h <;> simp [h, isPySpace_space]) hcs
+    refine ⟨c, r, by rw [e]; exact hr', ?_⟩
+    -- where does `c` come from?
+    cases a with
+    | nil =>
+      right; left
+      have : Rp (termsOf ([] : Dict)) = [] := rfl
+      rw [this, List.nil_append] at hcr
+      obtain ⟨hne, _⟩ := tokOK_spec htok
+      cases tok with
+      | nil => exact absurd rfl hne
+      | cons t0 ts => simp at hcr; simp [hcr.1]
+    | cons kv a' =>
+      obtain ⟨k, cf⟩ := kv
+      obtain ⟨n, hn, hcf, hk, _⟩ := ha.2 (k, cf) (by simp)
+      simp only at hcf hk; subst hcf
+      have hst : ∃ rest, Rp (termsOf ((k, Coef.ofNat n) :: a')) = (termOf (k, Coef.ofNat n)).text ++ rest := by
+        unfold Rp
+        simp only [termsOf, List.map_cons, reduceCtorEq, if_false]
+        cases a' with
+        | nil => exact ⟨[' '], by simp [sideText, joinStrs]⟩
+        | cons y ys =>
+          refine ⟨plusSep ++ sideText (termOf y :: ys.map termOf) ++ [' '], ?_⟩
+          simp only [List.map_cons]
+          rw [sideText_cons2]; simp [List.append_assoc]
+      obtain ⟨rest, hrest⟩ := hst
+      rw [hrest, termOf_ofNat] at hcr
+      by_cases h1 : n = 1
+      · right; right
+        refine ⟨(k, Coef.ofNat n), by simp, ?_⟩
+        simp only [h1, if_true, Term.text, Term.body, Bool.false_eq_true, if_false] at hcr
+        obtain ⟨hkne, _⟩ := keyOK_spec hk
+        cases k with
+        | nil => exact absurd rfl hkne
+        | cons k0 ks => simp at hcr; simp [hcr.1]
+      · left
+        simp only [h1, if_false, Term.text, Term.body, Bool.false_eq_true] at hcr
+        obtain ⟨d0, dr, hdr, hd0⟩ := natStr_head_digit n
+        rw [hdr] at hcr; simp at hcr; rw [← hcr.1]; exact hd0
+
+/-- a reaction that `ReactionSystem.string()` prints in a way `from_string` reads back -/
+structure Printable (tok : Str) (cts : List Str) (wp : Bool) (r : Reaction) : Prop where
+  reac : GoodDict tok r.reac
+  prod : GoodDict tok r.prod
+  noInactR : r.inactReac = []
+  noInactP : r.inactProd = []
+  effect : r.anyEffect = true
+  /-- a printed parameter text is non-empty, without surrounding blanks, `;` or newline (every `%.3g` output is) -/
+  param : wp = true → ∀ p, r.param = some p → Tight p ∧ ';' ∉ p ∧ '\n' ∉ p
+  /-- no key contains a newline -/
+  noNewline : ∀ kv ∈ r.reac ++ r.prod, '\n' ∉ kv.1
+  /-- the printed line does not look like a comment: no comment token starts with a digit, with the first character of
+      the token or with the first character of a reactant key (and none is empty) -/
+  noComment : ∀ ct ∈ cts, ∃ c0 rest, ct = c0 :: rest ∧ c0.isDigit = false ∧ tok.head? ≠ some c0 ∧
+      ∀ kv ∈ r.reac, kv.1.head? ≠ some c0
+
+def lineOf (tok : Str) (wp : Bool) (r : Reaction) : Str :=
+  writeLine tok (termsOf r.reac) (termsOf r.prod) ++ tailText (if wp then (r.param.map (' ' :: ·)).toList else [])
+
+/-- what `from_string` returns for a printed reaction: same dictionaries, the printed parameter text, no name -/
+def normal (wp : Bool) (r : Reaction) : Reaction := ⟨r.reac, r.prod, [], [], if wp then r.param else none, none⟩
+
+theorem lineOf_facts {tok : Str} {cts : List Str} {wp : Bool} {r : Reaction} (htok : tokOK tok = true)
+    (hnl : '\n' ∉ tok) (h : Printable tok cts wp r) :
+    printReaction tok wp false r = some (lineOf tok wp r) ∧ toReaction .none tok (lineOf tok wp r) = .ok (normal wp r) ∧
+    '\n' ∉ lineOf tok wp r ∧ (strip (lineOf tok wp r) != [] && !(cts.any fun ct => startsWith ct (strip (lineOf tok wp r)))) = true := by
+  obtain ⟨h1, h2⟩ := parse_print_gen htok h.reac h.prod h.noInactR h.noInactP h.effect wp h.param
+  refine ⟨h1, h2, ?_, ?_⟩
+  · unfold lineOf
+    intro hm
+    rcases List.mem_append.mp hm with hm | hm
+    · refine line_noChar (goodDict_terms h.reac) (goodDict_terms h.prod) (by decide) (by decide) (by decide) hnl ?_ hm
+      intro t ht
+      simp only [termsOf, ← List.map_append, List.mem_map] at ht
+      obtain ⟨kv, hkv, rfl⟩ := ht
+      exact h.noNewline kv hkv
+    · rcases mem_tailText hm with h3 | ⟨q, hq, hcq⟩
+      · exact absurd h3 (by decide)
+      · cases wp
+        · simp at hq
+        · cases hpm : r.param with
+          | none => rw [hpm] at hq; simp at hq
+          | some p =>
+            rw [hpm] at hq; simp at hq; subst hq
+            simp only [List.mem_cons] at hcq
+            rcases hcq with hcq | hcq
+            · exact absurd hcq (by decide)
+            · exact (h.param rfl p hpm).2.2 hcq
+  · obtain ⟨c, rr, hs, hc⟩ := printed_head htok h.reac h.prod (tailText (if wp then (r.param.map (' ' :: ·)).toList else []))
+    unfold lineOf
+    rw [hs]
+    simp only [Bool.and_eq_true, bne_iff_ne, ne_eq, reduceCtorEq, not_false_eq_true, Bool.not_eq_true', true_and]
+    rw [List.any_eq_false]
+    intro ct hct
+    obtain ⟨c0, rest, hct0, hd0, ht0, hk0⟩ := h.noComment ct hct
+    rw [hct0]
+    simp only [startsWith, List.isPrefixOf, Bool.and_eq_true, beq_iff_eq, not_and, Bool.not_eq_true]
+    intro e; exfalso
+    subst e
+    rcases hc with hc | hc | ⟨kv, hkv, hc⟩
+    · rw [hc] at hd0; exact absurd hd0 (by simp)
+    · exact ht0 hc
+    · exact hk0 kv hkv hc
+
+theorem split_lines (ls : List Str) (hne : ls ≠ []) (h : ∀ l ∈ ls, '\n' ∉ l) :
+    pySplit ['\n'] (joinStrs ['\n'] ls) = ls := by
+  induction ls with
+  | nil => exact absurd rfl hne
+  | cons l ls ih =>
+    have h1 : isInfixB ['\n'] l = false :=
+      isInfixB_false_of_not_mem (by simp) (fun c hc => by simp only [List.mem_singleton]; intro e; subst e; exact h _ (by simp) hc)
+    cases ls with
+    | nil => simpa [joinStrs] using pySplit_none h1
+    | cons m ls =>
+      simp only [joinStrs]
+      rw [pySplit_first _ (by simp) (by simpa using h1), ih (by simp) (fun x hx => h x (by simp [hx]))]
+
+theorem joinStrs_snoc_nil (sep : Str) (ls : List Str) (hne : ls ≠ []) :
+    joinStrs sep (ls ++ [[]]) = joinStrs sep ls ++ sep := by
+  induction ls with
+  | nil => exact absurd rfl hne
+  | cons l ls ih =>
+    cases ls with
+    | nil => simp [joinStrs]
+    | cons m ls =>
+      have := ih (by simp)
+      simp only [List.cons_append, joinStrs] at this ⊢
+      rw [this]; simp [List.append_assoc]
+
+theorem print_lines (tok : Str) (wp : Bool) (rs : List Reaction)
+    (h : ∀ r ∈ rs, printReaction tok wp false r = some (lineOf tok wp r)) :
+    mapOption (printReaction tok wp false) rs = some (rs.map (lineOf tok wp)) := by
+  induction rs with
+  | nil => rfl
+  | cons r rs ih =>
+    simp only [mapOption, h r (by simp), ih (fun x hx => h x (by simp [hx])), List.map_cons]
+
+theorem parse_lines (tok : Str) (wp : Bool) (rs : List Reaction)
+    (h : ∀ r ∈ rs, toReaction .none tok (lineOf tok wp r) = .ok (normal wp r)) :
+    mapExcept (toReaction .none tok) (rs.map (lineOf tok wp)) = .ok (rs.map (normal wp)) := by
+  induction rs with
+  | nil => rfl
+  | cons r rs ih =>
+    simp only [List.map_cons, mapExcept, h r (by simp), ih (fun x hx => h x (by simp [hx]))]
+
+/-- the lines `from_string` keeps from a printed system are exactly the printed reaction lines -/
+theorem systemLines_printed (cts : List Str) (ls : List Str) (hnl : ∀ l ∈ ls, '\n' ∉ l)
+    (hkeep : ∀ l ∈ ls, (strip l != [] && !(cts.any fun ct => startsWith ct (strip l))) = true) :
+    systemLines cts (joinStrs ['\n'] ls ++ ['\n']) = ls := by
+  unfold systemLines
+  rw [systemSep_is.1]
+  by_cases hne : ls = []
+  · subst hne
+    have : pySplit ['\n'] (joinStrs ['\n'] [] ++ ['\n']) = [[], []] := by decide
+    rw [this]
+    simp [strip_nil]
+  · rw [← joinStrs_snoc_nil _ _ hne, split_lines _ (by simp) (by
+      intro l hl; simp only [List.mem_append, List.mem_singleton] at hl
+      rcases hl with hl | hl
+      · exact hnl l hl
+      · subst hl; simp)]
+    rw [List.filter_append]
+    have h1 : ls.filter (fun r => strip r != [] && !(cts.any fun tok => startsWith tok (strip r))) = ls := by
+      rw [List.filter_eq_self]; exact hkeep
+    rw [h1]; simp [strip_nil]
+
+/-- **print a system, then parse it** (no names, no inactive groups): `from_string` returns the reactions with the
+    same dictionaries and the printed parameter texts -/
+theorem system_print_parse {tok : Str} (cts : List Str) (wp : Bool) (rs : List Reaction) (htok : tokOK tok = true)
+    (hnl : '\n' ∉ tok) (h : ∀ r ∈ rs, Printable tok cts wp r) :
+    ∃ text, printSystem tok wp false none rs = some text ∧
+      systemFromString cts .none tok text = .ok (rs.map (normal wp)) := by
+  have hf := fun r hr => lineOf_facts htok hnl (h r hr)
+  refine ⟨joinStrs ['\n'] (rs.map (lineOf tok wp)) ++ ['\n'], ?_, ?_⟩
+  · unfold printSystem
+    rw [print_lines tok wp rs (fun r hr => (hf r hr).1)]
+    simp [systemSep_is.2]
+  · unfold systemFromString
+    rw [systemLines_printed cts _ (by
+        intro l hl; simp only [List.mem_map] at hl; obtain ⟨r, hr, rfl⟩ := hl; exact (hf r hr).2.2.1) (by
+        intro l hl; simp only [List.mem_map] at hl; obtain ⟨r, hr, rfl⟩ := hl; exact (hf r hr).2.2.2)]
+    exact parse_lines tok wp rs (fun r hr => (hf r hr).2.1)
+
+theorem normal_eq {wp : Bool} {r : Reaction} (hir : r.inactReac = []) (hip : r.inactProd = [])
+    (hp : wp = true ∨ r.param = none) : Reaction.eq (normal wp r) r = true := by
+  have : (if wp then r.param else none) = r.param := by
+    rcases hp with h | h
+    · simp [h]
+    · cases wp <;> simp [h]
+  simp [Reaction.eq, normal, dictEq_refl, hir, hip, dictEq, this]
+
+/-- `copy()` hands the OrderedDicts back to the constructor, which keeps them: the copy compares equal
+    (reflexivity of the modelled `__eq__`; a NaN parameter is outside the model) -/
+theorem copy_eq (r : Reaction) : Reaction.eq r.copy r = true := Reaction.eq_refl r
 
 end ChemModel.ReactionText
